@@ -2,25 +2,25 @@
    re-lexing the formatter's output (definitions: Write/FormatBytes.v).
 
    Main results
-     main_pick_stable, string_pick_stable
-                          in the main / string scanner a match that produced a clean token
-                          is won by the same rule with the same token end when the bytes
-                          after the token change in a way that does not continue it
+     main_pick_stable, string_pick_stable, heredoc_pick_stable
+                          in each scanner a match that produced a clean token is won by the
+                          same rule with the same token end when the bytes after the token
+                          change in a way that does not continue it
      run_trace/trace_run  the scanner loop as a list of steps, both directions
-     relex_exact_nohd     clean sources without heredocs: layout_okb (format ts) implies that
+     relex_exact_clean    every source that lexes cleanly: layout_okb (format ts) implies that
                           the written output lexes back to format ts exactly
-     layout_of_format_nohd  ... and format's output satisfies layout_okb when the source has no
+     layout_of_format_clean  ... and format's output satisfies layout_okb when the source has no
                           hazard pattern (pipeline_LI4, fine_flat: what format does pair by
                           pair; pair_table, tl_table: finite exploration of space_after over
                           all pairs of types; main_shape: first bytes by type)
-     relex_exact_quoted, relex_stable_quoted, bytes_idempotent_quoted
-                          the byte-level statements for sources without heredocs (quoted
-                          templates with ${..} and %{..} sequences included)
-     relex_exact_simple, relex_stable_simple, bytes_idempotent_simple, relex_exact_main
-                          corollaries for sources of main-scanner tokens
+     relex_exact_hazard_free : relex_exact_hazard_free_stmt
+     relex_stable_hazard_free, bytes_idempotent_hazard_free
+                          the byte-level statements for every clean, hazard-free source
+                          (quoted templates, template sequences and heredocs included)
+     relex_exact_quoted/..., relex_exact_simple/..., relex_exact_main, relex_exact_nohd
+                          corollaries for sources without heredocs / of main-scanner tokens
      relex_stable_refuted*  the statement is false without the hazard conditions
-                          (witnesses by vm_compute)
-   Not proved: sources with heredocs (FormatBytes.relex_exact_hazard_free_stmt). *)
+                          (witnesses by vm_compute) *)
 From Coq Require Import String Ascii.
 From HclV Require Import Base.Prelude Gen.TokenTypes Lex.Scanner Lex.ScannerProofs Lex.HclLex
   Lex.HclLexProofs Write.Format Write.FormatProofs Write.FormatBytes.
@@ -521,7 +521,7 @@ Proof. intro H. unfold m_self. rewrite H. reflexivity. Qed.
 (* ASCII bytes that start no identifier *)
 Definition nonident : list Z :=
   [32; 9; 48; 49; 50; 51; 52; 53; 54; 55; 56; 57; 35; 47; 10; 13; 61; 33; 62; 60; 38; 124; 58;
-   46; 123; 125; 126; 34; 91; 93; 40; 41; 44; 42; 37; 43; 45; 63; 94; 59; 96; 39].
+   46; 123; 125; 126; 34; 91; 93; 40; 41; 44; 42; 37; 43; 45; 63; 94; 59; 96; 39; 36].
 
 Lemma nonident_ok : Forall (fun k => forall y, ident_len (k :: y) = O) nonident.
 Proof. unfold nonident. repeat constructor; intro y; vm_compute; reflexivity. Qed.
@@ -564,7 +564,7 @@ Definition tail_ok (b t' : list Z) : Prop :=
   end.
 
 Definition emits_ok (e : emit) : Prop :=
-  forall ty, In ty (emit_types e) -> clean_ty ty = true /\ ty <> TokenOHeredoc.
+  forall ty, In ty (emit_types e) -> clean_ty ty = true.
 
 (* ---- shapes ------------------------------------------------------------------------- *)
 
@@ -671,12 +671,12 @@ Qed.
 
 (* ---- the main lemma ------------------------------------------------------------------- *)
 
-Lemma emits_ok_one ty : emits_ok (EOne ty) -> clean_ty ty = true /\ ty <> TokenOHeredoc.
+Lemma emits_ok_one ty : emits_ok (EOne ty) -> clean_ty ty = true.
 Proof. intro H. apply H. left. reflexivity. Qed.
 
 Ltac unclean Ha Hok :=
   exfalso; cbn [r_act] in Ha; unfold a_tok in Ha; inversion Ha; subst;
-  destruct (emits_ok_one _ Hok) as [Hcl _]; vm_compute in Hcl; discriminate.
+  pose proof (emits_ok_one _ Hok) as Hcl; vm_compute in Hcl; discriminate.
 
 (* all matchers of the main scanner agree on c :: x and c :: x' for a concrete
    first byte c, unless the goal is left for a matcher that looks further *)
@@ -751,6 +751,78 @@ Proof.
     replace (c <=? 239) with false by (symmetry; apply Z.leb_gt; lia).
     replace (c <=? 247) with false by (symmetry; apply Z.leb_gt; lia).
     rewrite !andb_false_r. lia.
+Qed.
+
+(* ---- the heredoc opener "<<" "-"? Ident Newline is complete in itself ----------------------- *)
+
+Lemma id_stop_nl y : id_stop (10 :: y) /\ id_stop (13 :: y).
+Proof. split; intro acc; vm_compute; reflexivity. Qed.
+
+Lemma newline_len_inv s : newline_len s <> O ->
+  (exists y, s = 10 :: y) /\ newline_len s = 1%nat \/ (exists y, s = 13 :: 10 :: y) /\ newline_len s = 2%nat.
+Proof.
+  unfold newline_len. destruct s as [|a r]; [intro H; contradiction|].
+  destruct (a =? 10) eqn:E1. { apply Z.eqb_eq in E1. subst. left. eauto. }
+  destruct (a =? 13) eqn:E2; [|intro H; contradiction]. apply Z.eqb_eq in E2. subst a.
+  destruct r as [|c r']; [intro H; contradiction|]. simpl. destruct (c =? 10) eqn:E3; [|intro H; contradiction].
+  apply Z.eqb_eq in E3. subst c. right. eauto.
+Qed.
+
+Lemma heredoc_begin_hd b t : forall n, m_heredoc_begin (b ++ t) = same n -> length b = n ->
+  exists b2, b = 60 :: 60 :: b2.
+Proof.
+  intros n H Hl. unfold m_heredoc_begin in H.
+  destruct b as [|c0 [|c1 b2]].
+  - exfalso. cbn [app] in H. destruct t as [|c0 [|c1 r]]; try discriminate.
+    destruct ((c0 =? 60) && (c1 =? 60)); [|discriminate]. cbv zeta in H.
+    destruct (ident_len _); [discriminate|]. destruct (newline_len _); [discriminate|].
+    unfold same in H. inversion H. simpl in Hl. lia.
+  - exfalso. cbn [app] in H. destruct t as [|c1 r]; try discriminate.
+    destruct ((c0 =? 60) && (c1 =? 60)); [|discriminate]. cbv zeta in H.
+    destruct (ident_len _); [discriminate|]. destruct (newline_len _); [discriminate|].
+    unfold same in H. inversion H. simpl in Hl. lia.
+  - cbn [app] in H. destruct ((c0 =? 60) && (c1 =? 60)) eqn:E; [|discriminate].
+    apply andb_true_iff in E. destruct E as [E0 E1]. apply Z.eqb_eq in E0, E1. subst. eauto.
+Qed.
+
+Lemma heredoc_begin_app b t t' :
+  m_heredoc_begin (b ++ t) = same (length b) -> m_heredoc_begin (b ++ t') = same (length b).
+Proof.
+  intro H. destruct (heredoc_begin_hd b t _ H eq_refl) as (b2 & ->).
+  cbn [app length] in *. unfold m_heredoc_begin in *. cbn [Z.eqb andb] in *. cbv zeta in *.
+  destruct b2 as [|x b3].
+  { exfalso. cbn [app] in H. destruct (ident_len _); [discriminate|]. destruct (newline_len _); [discriminate|].
+    unfold same in H. inversion H. lia. }
+  cbn [app starts_with] in *.
+  set (d := if x =? 45 then 1%nat else O) in *.
+  assert (Hd : (d <= 1)%nat) by (unfold d; destruct (x =? 45); lia).
+  assert (Hsk : forall u, skipn d (x :: b3 ++ u) = skipn d (x :: b3) ++ u).
+  { intro u. unfold d. destruct (x =? 45); reflexivity. }
+  rewrite Hsk in *. set (b4 := skipn d (x :: b3)) in *.
+  assert (Hb4 : length b4 = (S (length b3) - d)%nat) by (unfold b4; rewrite skipn_length; reflexivity).
+  destruct (ident_len (b4 ++ t)) as [|k'] eqn:Ek; [discriminate|].
+  destruct (newline_len (skipn (S k') (b4 ++ t))) as [|nl'] eqn:En; [discriminate|].
+  unfold same in H. assert (Hn : (2 + d + S k' + S nl' = S (S (S (length b3))))%nat) by (inversion H; reflexivity).
+  assert (Hk : (S k' <= length b4)%nat) by lia.
+  rewrite skipn_app in En. replace (S k' - length b4)%nat with O in En by lia. rewrite skipn_O in En.
+  set (ib := firstn (S k') b4). set (nb := skipn (S k') b4) in *.
+  assert (Hsplit : b4 = ib ++ nb) by (symmetry; apply firstn_skipn).
+  assert (Hib : length ib = S k') by (unfold ib; rewrite firstn_length; lia).
+  assert (Hnb : length nb = S nl') by (unfold nb; rewrite skipn_length; lia).
+  (* the newline lies inside the token *)
+  assert (Hnl : newline_len (nb ++ t') = S nl' /\ (id_stop (nb ++ t'))).
+  { destruct (newline_len_inv (nb ++ t) ltac:(rewrite En; discriminate)) as [[(y & Ey) E1]|[(y & Ey) E2]].
+    - rewrite En in E1. inversion E1; subst nl'. destruct nb as [|c1 [|c2 nb']]; simpl in Hnb; try lia.
+      cbn [app] in Ey. inversion Ey; subst c1. cbn [app]. split; [reflexivity|apply id_stop_nl].
+    - rewrite En in E2. inversion E2; subst nl'. destruct nb as [|c1 [|c2 [|c3 nb']]]; simpl in Hnb; try lia.
+      cbn [app] in Ey. inversion Ey; subst c1 c2. cbn [app]. split; [reflexivity|apply id_stop_nl]. }
+  destruct Hnl as [Hnl Hstop].
+  assert (Ek' : ident_len (b4 ++ t') = S k').
+  { rewrite Hsplit, <- !app_assoc in *. destruct ib as [|ic ib']; [simpl in Hib; lia|].
+    rewrite <- Hib. apply (ident_len_app ic ib' (nb ++ t) (nb ++ t')); [rewrite Hib; exact Ek|exact Hstop]. }
+  rewrite Ek'. rewrite skipn_app. replace (S k' - length b4)%nat with O by lia. rewrite skipn_O. fold nb.
+  rewrite Hnl. unfold same.
+  replace (S (S (length (x :: b3)))) with (2 + d + S k' + S nl')%nat by (cbn [length]; lia). reflexivity.
 Qed.
 
 Lemma a_begin_heredoc_emit (st : hstate) b e st' :
@@ -860,7 +932,7 @@ Proof.
     cbn [Nat.max length] in Hlen. destruct b' as [|x b'']; [|simpl in Hlen; lia]. cbn [app] in *.
     specialize (Tone eq_refl).
     cbn [r_act] in Ha. unfold a_self in Ha. inversion Ha; subst e st'.
-    destruct (emits_ok_one _ Hok) as [Hcl _].
+    pose proof (emits_ok_one _ Hok) as Hcl.
     assert (HoldL : forall p, (exists a, In (R (m_lit p) a) rules_main) -> (2 <= length p)%nat ->
                               m_lit p (c :: t0 :: t1) = None).
     { intros p [a Hi] Hl. eapply look_le1_lit; [apply Hmax; exact Hi|exact Hl]. }
@@ -896,9 +968,13 @@ Proof.
       intros r' Hin'; each_main_rule Hin' agree_c |].
 
   destruct Hin as [<-|Hin].
-  { (* heredoc opener: not in this fragment *)
-    exfalso. cbn [r_act] in Ha. apply a_begin_heredoc_emit in Ha. subst e.
-    destruct (emits_ok_one _ Hok) as [_ Hh]. apply Hh. reflexivity. }
+  { (* heredoc opener: complete in itself *)
+    unfold R in Hm. cbn [r_match] in Hm. pose proof (m_heredoc_begin_same _ _ _ Hm) as ->.
+    replace (Nat.max 1 n) with n in Hlen by lia.
+    assert (Hs : m_heredoc_begin ((c :: b') ++ t0 :: t1) = same (length (c :: b'))) by (rewrite Hlen; exact Hm).
+    pose proof (heredoc_begin_app (c :: b') (t0 :: t1) t' Hs) as Hnew.
+    destruct (heredoc_begin_hd (c :: b') (t0 :: t1) _ Hs eq_refl) as (b2 & Eb). inversion Eb; subst c b'. cbn [app] in *.
+    intros r' Hin'. each_main_rule Hin' ltac:(first [ rewrite Hnew, Hs; reflexivity | agree_c ]). }
   destruct Hin as [<-|Hin]; [unclean Ha Hok|].
   destruct Hin as [<-|Hin]; [unclean Ha Hok|].
   destruct Hin.
@@ -1290,7 +1366,7 @@ Qed.
 
 (* the fragment: tokens of the main scanner only *)
 
-Definition ty_of (p : step) : Z := match g_emit p with EOne ty => ty | _ => 0 end.
+Definition ty_of (p : step) : Z := match g_emit p with EOne ty => ty | ETwo ty _ _ => ty | ENone => 0 end.
 
 Lemma simple_ty_inv t : simple_ty t = true -> clean_ty t = true /\ t <> TokenOHeredoc /\ t <> TokenOQuote.
 Proof.
@@ -1774,15 +1850,632 @@ Proof.
   destruct Hin.
 Qed.
 
-(* ==== 5. steps of both scanners; re-spacing with templates; layout => relex ======== *)
+(* ==== 4c. the heredoc scanner; heredoc markers ========================================= *)
 
-(* token types that only the string scanner emits (lexed without skipping blanks) *)
+(* ---- span_chars plain_ok ------------------------------------------------------------------------ *)
 
-(* the fragment: everything clean except heredocs *)
+Notation spc := (span_chars plain_ok).
 
-Definition okm (m : hmode) : Prop := m = MMain \/ m = MString.
+Lemma sc_ge : forall s skip acc, (skip <= length s)%nat -> (acc + skip <= spc s skip acc)%nat.
+Proof.
+  induction s as [|c r IH]; intros skip acc H; cbn [span_chars length] in *; [lia|].
+  destruct skip as [|k]; [|specialize (IH k (S acc) ltac:(lia)); lia].
+  destruct (plain_ok c); [|lia].
+  destruct (utf8_len (c :: r)) as [[|a]|] eqn:E; try lia.
+  destruct (utf8_len_need _ _ _ E) as (_ & Hl & _). simpl in Hl. specialize (IH a (S acc) ltac:(lia)). lia.
+Qed.
+
+Definition sc_stop (t : list Z) : Prop := forall acc, spc t 0 acc = acc.
+
+Lemma sc_stop_nil : sc_stop [].
+Proof. intro; reflexivity. Qed.
+
+Lemma sc_stop_hard c y : plain_ok c = false -> sc_stop (c :: y).
+Proof. intros H acc. cbn [span_chars]. rewrite H. reflexivity. Qed.
+
+Lemma sc_app : forall b t skip acc, (skip <= length (b ++ t))%nat ->
+  spc (b ++ t) skip acc = (acc + length b)%nat ->
+  forall t', sc_stop t' -> spc (b ++ t') skip acc = (acc + length b)%nat.
+Proof.
+  induction b as [|c b IH]; intros t skip acc Hk H t' Hs.
+  - cbn [app length] in *. destruct skip as [|k]; [rewrite Hs; lia|].
+    pose proof (sc_ge t (S k) acc Hk). lia.
+  - cbn [app length] in *. destruct skip as [|k].
+    2:{ cbn [span_chars] in *. rewrite (IH t k (S acc) ltac:(lia) ltac:(lia) t' Hs). lia. }
+    cbn [span_chars] in *. destruct (plain_ok c); [|lia].
+    destruct (utf8_len (c :: b ++ t)) as [[|a]|] eqn:E; try lia.
+    destruct (utf8_len_need _ _ _ E) as (En & Hl & _). cbn [length] in Hl.
+    assert (Hab : (a <= length b)%nat).
+    { destruct (Nat.le_gt_cases a (length b)); [assumption|].
+      pose proof (sc_ge (b ++ t) a (S acc) ltac:(lia)). lia. }
+    assert (E' : utf8_len (c :: b ++ t') = Some (S a)).
+    { rewrite <- E. symmetry. apply (utf8_len_app c b t t'). rewrite <- En. cbn [length]. lia. }
+    rewrite E'. rewrite (IH t a (S acc) ltac:(lia) ltac:(lia) t' Hs). lia.
+Qed.
+
+Lemma sc_shift : forall s skip acc d, spc s skip (acc + d) = (spc s skip acc + d)%nat.
+Proof.
+  induction s as [|c r IH]; intros skip acc d; cbn [span_chars]; [reflexivity|].
+  destruct skip as [|k]; [|apply (IH k (S acc) d)].
+  destruct (plain_ok c); [|reflexivity].
+  destruct (utf8_len (c :: r)) as [[|a]|]; try reflexivity. apply (IH a (S acc) d).
+Qed.
+
+Lemma sc_cont : forall b t skip acc, (skip <= length (b ++ t))%nat ->
+  spc (b ++ t) skip acc = (acc + length b)%nat -> spc t 0 0 = O.
+Proof.
+  induction b as [|c b IH]; intros t skip acc Hk H.
+  - cbn [app length] in *. destruct skip as [|k].
+    + pose proof (sc_shift t 0 0 acc) as E. cbn in E. rewrite E in H. lia.
+    + pose proof (sc_ge t (S k) acc Hk). lia.
+  - cbn [app length] in *. destruct skip as [|k].
+    2:{ cbn [span_chars] in H. apply (IH t k (S acc)); lia. }
+    cbn [span_chars] in H. destruct (plain_ok c); [|lia].
+    destruct (utf8_len (c :: b ++ t)) as [[|a]|] eqn:E; try lia.
+    destruct (utf8_len_need _ _ _ E) as (En & Hl & _). cbn [length] in Hl.
+    apply (IH t a (S acc)); lia.
+Qed.
+
+Lemma sc_first c x k : spc (c :: x) 0 0 = S k -> (utf8_need c <= S k)%nat /\ plain_ok c = true.
+Proof.
+  cbn [span_chars]. destruct (plain_ok c); [|discriminate].
+  destruct (utf8_len (c :: x)) as [[|a]|] eqn:E; try discriminate.
+  destruct (utf8_len_need _ _ _ E) as (En & Hl & _). cbn [length] in Hl.
+  intro H. pose proof (sc_ge x a 1%nat ltac:(lia)). split; [lia|reflexivity].
+Qed.
+
+Lemma sc_le : forall s skip acc, (spc s skip acc <= acc + length s)%nat.
+Proof.
+  induction s as [|c r IH]; intros skip acc; cbn [span_chars length]; [lia|].
+  destruct skip as [|k]; [|specialize (IH k (S acc)); lia].
+  destruct (plain_ok c); [|lia].
+  destruct (utf8_len (c :: r)) as [[|a]|]; try lia. specialize (IH a (S acc)). lia.
+Qed.
+
+(* newline_len looks at two bytes *)
+Lemma newline_len_firstn2 t t' : firstn 2 t = firstn 2 t' -> newline_len t = newline_len t'.
+Proof.
+  unfold newline_len. destruct t as [|a [|b r]]; destruct t' as [|a' [|b' r']]; cbn; intro H; inversion H; reflexivity.
+Qed.
+
+Lemma newline_len_app nb t t' : newline_len (nb ++ t) = length nb -> nb <> [] -> newline_len (nb ++ t') = length nb.
+Proof.
+  intros H Hne. destruct (newline_len_inv (nb ++ t) ltac:(rewrite H; destruct nb; [contradiction|discriminate])) as [[(y & Ey) E1]|[(y & Ey) E2]].
+  - rewrite H in E1. destruct nb as [|c1 [|c2 nb']]; simpl in E1; try lia. cbn [app] in Ey. inversion Ey; subst. reflexivity.
+  - rewrite H in E2. destruct nb as [|c1 [|c2 [|c3 nb']]]; simpl in E2; try lia. cbn [app] in Ey. inversion Ey; subst. reflexivity.
+Qed.
+
+Lemma newline_len_hd nb : newline_len nb <> O -> exists c y, nb = c :: y /\ plain_ok c = false.
+Proof.
+  intro H. destruct (newline_len_inv nb H) as [[(y & ->) _]|[(y & ->) _]]; eexists; eexists; split; reflexivity.
+Qed.
+
+(* ---- the two literal rules on an input that does not start with '$' / '%' ---------------------- *)
+
+Lemma eol_nodp c x : is_dp c = false ->
+  m_heredoc_eol (c :: x) =
+  (let k := spc (c :: x) 0 0 in
+   match newline_len (skipn k (c :: x)) with O => None | n => same (k + n) end).
+Proof. intro H. unfold m_heredoc_eol. rewrite (tns_nodp c x H). reflexivity. Qed.
+
+Lemma mid_nodp c x : is_dp c = false ->
+  m_heredoc_mid (c :: x) = match spc (c :: x) 0 0 with O => None | k => same k end.
+Proof. intro H. unfold m_heredoc_mid. rewrite (tns_nodp c x H). reflexivity. Qed.
+
+Lemma eol_open d x : is_dp d = true -> m_heredoc_eol (d :: 123 :: x) = None.
+Proof.
+  intro H. unfold m_heredoc_eol. rewrite tns_open. cbv zeta.
+  destruct (is_dp_cases d H) as [-> | ->]; reflexivity.
+Qed.
+
+Lemma mid_open d x : is_dp d = true -> m_heredoc_mid (d :: 123 :: x) = None.
+Proof.
+  intro H. unfold m_heredoc_mid. rewrite tns_open.
+  destruct (is_dp_cases d H) as [-> | ->]; reflexivity.
+Qed.
+
+(* a line whose newline lies inside the token *)
+Lemma line_inside b t k nl :
+  spc (b ++ t) 0 0 = k -> newline_len (skipn k (b ++ t)) = nl -> nl <> O -> (k + nl = length b)%nat ->
+  forall t', spc (b ++ t') 0 0 = k /\ newline_len (skipn k (b ++ t')) = nl.
+Proof.
+  intros Hk Hn Hnz Hl t'.
+  assert (Hkb : (k <= length b)%nat) by lia.
+  set (pre := firstn k b). set (nb := skipn k b).
+  assert (Hb : b = pre ++ nb) by (symmetry; apply firstn_skipn).
+  assert (Hpre : length pre = k) by (unfold pre; rewrite firstn_length; lia).
+  assert (Hnb : length nb = nl) by (unfold nb; rewrite skipn_length; lia).
+  assert (Hsk : forall u, skipn k (b ++ u) = nb ++ u).
+  { intro u. rewrite skipn_app. replace (k - length b)%nat with O by lia. rewrite skipn_O. reflexivity. }
+  rewrite Hsk in Hn.
+  assert (Hnb' : newline_len (nb ++ t') = nl).
+  { assert (Hne : nb <> []) by (intro E; rewrite E in Hnb; simpl in Hnb; lia).
+    rewrite <- Hnb. apply (newline_len_app nb t t'); [rewrite Hnb; exact Hn|exact Hne]. }
+  split; [|rewrite Hsk; exact Hnb'].
+  destruct (newline_len_hd (nb ++ t') ltac:(rewrite Hnb'; exact Hnz)) as (c & y & Ec & Hc).
+  rewrite Hb, <- app_assoc in Hk |- *.
+  rewrite <- Hpre. apply (sc_app pre (nb ++ t) 0 0 ltac:(lia)); [rewrite Hpre; exact Hk|].
+  rewrite Ec. apply sc_stop_hard. exact Hc.
+Qed.
+
+Ltac each_heredoc_rule Hin tac :=
+  unfold rules_heredoc in Hin; cbn [In] in Hin;
+  repeat (destruct Hin as [<-|Hin]; [unfold R; cbn [r_match]; tac|]); try (destruct Hin).
+
+Lemma a_heredoc_eol_emit (st : hstate) b e st' :
+  a_heredoc_eol st b = Some (e, st') ->
+  (exists k, e = ETwo TokenCHeredoc k TokenNewline) \/ e = EOne TokenStringLit.
+Proof.
+  unfold a_heredoc_eol. destruct (l_hdocs st) as [|top rest]; [discriminate|].
+  destruct (h_sol top && zlist_eqb (trim_space b) (h_marker top)).
+  - destruct (fret _); [|discriminate]. intro H. inversion H. left. eauto.
+  - intro H. inversion H. right. reflexivity.
+Qed.
+
+Lemma a_heredoc_mid_emit (st : hstate) b e st' : a_heredoc_mid st b = Some (e, st') -> e = EOne TokenStringLit.
+Proof. unfold a_heredoc_mid. destruct (set_top_sol false st); [|discriminate]. intro H. inversion H. reflexivity. Qed.
+
+(* ---- literals that start with '$' / '%': decided by a short prefix ------------------------------- *)
+
+Definition dep (s : list Z) : nat :=
+  match tmpl_not_seq' s with TEsc n => (n + 2)%nat | THold _ => 3%nat | TNo => 2%nat end.
+
+Lemma firstn_le_eq {A} (s s' : list A) m k : firstn m s = firstn m s' -> (k <= m)%nat -> firstn k s = firstn k s'.
+Proof.
+  intros H Hk.
+  replace (firstn k s) with (firstn k (firstn m s)) by (rewrite firstn_firstn; f_equal; lia).
+  replace (firstn k s') with (firstn k (firstn m s')) by (rewrite firstn_firstn; f_equal; lia).
+  rewrite H. reflexivity.
+Qed.
+
+Lemma firstn_app2 (b t t' : list Z) : firstn 2 t = firstn 2 t' ->
+  firstn (length b + 2) (b ++ t) = firstn (length b + 2) (b ++ t').
+Proof. intro H. rewrite !firstn_app_2. rewrite H. reflexivity. Qed.
+
+Lemma tmpl_open_prefix d s s' : firstn 3 s = firstn 3 s' -> m_tmpl_open d s = m_tmpl_open d s'.
+Proof.
+  rewrite !m_tmpl_open_eq. unfold m_tmpl_open'.
+  destruct s as [|a [|b [|c r]]]; destruct s' as [|a' [|b' [|c' r']]]; cbn [firstn]; intro H; inversion H; subst; reflexivity.
+Qed.
+
+Lemma skipn_firstn_eq {A} (s s' : list A) n m : firstn (n + m) s = firstn (n + m) s' ->
+  firstn m (skipn n s) = firstn m (skipn n s').
+Proof.
+  revert s s'. induction n as [|n IH]; intros s s' H; [exact H|].
+  destruct s as [|a s]; destruct s' as [|a' s']; cbn [plus firstn skipn] in *.
+  - reflexivity.
+  - discriminate.
+  - discriminate.
+  - inversion H. apply IH. assumption.
+Qed.
+
+Lemma dp_prefix_agree s s' :
+  firstn (dep s) s = firstn (dep s) s' ->
+  tmpl_not_seq' s <> TNo ->
+  m_heredoc_eol s = m_heredoc_eol s' /\ m_heredoc_mid s = m_heredoc_mid s'.
+Proof.
+  unfold dep, m_heredoc_eol, m_heredoc_mid. rewrite !tmpl_not_seq_eq.
+  destruct (tmpl_not_seq' s) as [n|r2|] eqn:Et; intros H Hne; [| |contradiction].
+  - (* TEsc n: n is 3 or 4 *)
+    assert (Hn : (n = 3 \/ n = 4)%nat /\ tmpl_not_seq' s' = TEsc n).
+    { unfold tmpl_not_seq' in Et |- *.
+      destruct s as [|d [|c [|e1 r3]]]; try discriminate; try (destruct (is_dp d); [destruct (c =? 123); [discriminate|destruct (c =? d); discriminate]|discriminate]).
+      destruct (is_dp d) eqn:Ed; [|discriminate]. destruct (c =? 123) eqn:Ec; [discriminate|].
+      destruct (c =? d) eqn:Ecd; [|discriminate]. destruct (e1 =? 123) eqn:Ee; [|discriminate].
+      destruct s' as [|d' [|c' [|e1' r3']]]; try (destruct (starts_with 126 r3); inversion Et; subst n; cbn in H; discriminate H).
+      assert (Hh : d' = d /\ c' = c /\ e1' = e1 /\ firstn 2 r3 = firstn 2 r3').
+      { destruct (starts_with 126 r3); inversion Et; subst n; cbn [firstn plus] in H;
+          injection H as E1 E2 E3 E4; subst; repeat split; try reflexivity;
+          first [exact E4 | apply (firstn_le_eq r3 r3' 3 2 E4); lia]. }
+      destruct Hh as (-> & -> & -> & Hr). rewrite Ed, Ec, Ecd, Ee.
+      assert (Hs : starts_with 126 r3 = starts_with 126 r3').
+      { destruct r3, r3'; cbn in *; congruence. }
+      rewrite <- Hs. destruct (starts_with 126 r3); inversion Et; auto. }
+    destruct Hn as [Hn Et']. rewrite Et'. split; [|reflexivity].
+    assert (Hnl : firstn 2 (skipn n s) = firstn 2 (skipn n s')) by (apply skipn_firstn_eq; exact H).
+    rewrite (newline_len_firstn2 _ _ Hnl). reflexivity.
+  - (* THold *)
+    assert (Ht : exists r2', tmpl_not_seq' s' = THold r2' /\ starts_with 10 r2 = starts_with 10 r2' /\ starts_with 13 r2 = starts_with 13 r2').
+    { unfold tmpl_not_seq' in Et |- *.
+      destruct s as [|d [|c x]]; try discriminate.
+      destruct s' as [|d' [|c' x']]; try (cbn in H; destruct x; discriminate H).
+      assert (Hh : d' = d /\ c' = c /\ firstn 1 x = firstn 1 x').
+      { cbn [firstn] in H. inversion H; subst. repeat split; try reflexivity. destruct x, x'; cbn in *; congruence. }
+      destruct Hh as (-> & -> & Hx).
+      destruct (is_dp d); [|discriminate]. destruct (c =? 123); [discriminate|].
+      assert (Hs : forall k, starts_with k x = starts_with k x').
+      { intro k. destruct x, x'; cbn in *; congruence. }
+      destruct (c =? d).
+      + destruct x as [|e1 r3]; destruct x' as [|e1' r3']; cbn in Hx; try discriminate.
+        * inversion Et; subst r2. exists []. auto.
+        * inversion Hx; subst e1'. destruct (e1 =? 123); [destruct (starts_with 126 r3); discriminate|].
+          inversion Et; subst r2. exists (e1 :: r3'). cbn. auto.
+      + inversion Et; subst r2. exists x'. split; [reflexivity|]. split; apply Hs. }
+    destruct Ht as (r2' & Et' & H10 & H13). rewrite Et', H10, H13. split; reflexivity.
+Qed.
+
+Lemma dep_le d x lk n : is_dp d = true ->
+  (m_heredoc_eol (d :: x) = Some (lk, n) \/ m_heredoc_mid (d :: x) = Some (lk, n)) ->
+  (dep (d :: x) <= Nat.max 1 n + 2)%nat /\ tmpl_not_seq' (d :: x) <> TNo.
+Proof.
+  intros Hd H. unfold dep, m_heredoc_eol, m_heredoc_mid in *. rewrite !tmpl_not_seq_eq in H.
+  destruct (tmpl_not_seq' (d :: x)) as [n0|r2|] eqn:Et.
+  - split; [|discriminate]. destruct H as [H|H].
+    + destruct (newline_len _); [discriminate|]. unfold same in H. inversion H. lia.
+    + unfold same in H. inversion H. lia.
+  - split; [|discriminate]. destruct H as [H|H].
+    + destruct (starts_with 10 r2); [|discriminate]. inversion H. lia.
+    + destruct (starts_with 13 r2); unfold same in H; inversion H; lia.
+  - exfalso. assert (Hp : plain_ok d = false) by (unfold plain_ok; rewrite Hd; apply andb_false_r).
+    cbv zeta in H. cbn [span_chars] in H. rewrite Hp in H. cbn [skipn] in H.
+    assert (Hn : newline_len (d :: x) = O).
+    { unfold newline_len. destruct (is_dp_cases d Hd) as [-> | ->]; reflexivity. }
+    rewrite Hn in H. destruct H; discriminate.
+Qed.
+
+Lemma plain_ok_facts c : plain_ok c = true ->
+  is_dp c = false /\ (c =? 36) = false /\ (c =? 37) = false /\ is_nlchar c = false.
+Proof.
+  unfold plain_ok. intro H. apply andb_true_iff in H. destruct H as [H1 H2].
+  apply negb_true_iff in H1, H2. unfold is_dp in H2. pose proof H2 as H2'. apply orb_false_iff in H2'. tauto.
+Qed.
+
+Lemma heredoc_pick_stable (st : hstate) r lk n b t e st' t' :
+  b <> [] ->
+  pick rules_heredoc (b ++ t) None = Some (r, lk, n) ->
+  b = firstn (Nat.max 1 n) (b ++ t) ->
+  r_act r st b = Some (e, st') -> emits_clean e ->
+  (t = [] -> t' = []) ->
+  (e = EOne TokenStringLit -> firstn 2 t = firstn 2 t') ->
+  (e = EOne TokenStringLit -> spc t 0 0 = O ->
+     t = [] \/ exists c y, t = c :: y /\ plain_ok c = false) ->
+  ((e = EOne TokenTemplateInterp \/ e = EOne TokenTemplateControl) ->
+     forall d, b = [d; 123] -> starts_with 126 t' = false) ->
+  (forall t1 k t2, e = ETwo t1 k t2 -> exists c b', b = c :: b' /\ is_dp c = false) ->
+  pick rules_heredoc (b ++ t') None = Some (r, lk, n).
+Proof.
+  intros Hne Hp Hb Ha Hok Ht Hag Hhard Hopen Htwo.
+  destruct t as [|t0 t1].
+  { rewrite (Ht eq_refl). exact Hp. }
+  assert (Hlen : length b = Nat.max 1 n) by (eapply firstn_app_len; [exact Hb|discriminate]).
+  clear Ht Hb.
+  rewrite <- Hp. symmetry. apply pick_ext.
+  pose proof (pick_max _ _ _ _ _ _ Hp) as [_ Hmax].
+  pose proof Hp as Hp2. apply pick_spec in Hp2. destruct Hp2 as [Hx|(Hin & Hm & Hlk)]; [discriminate|].
+  destruct b as [|c b']; [contradiction|]. cbn [app] in *. clear Hne.
+  unfold rules_heredoc in Hin; cbn [In] in Hin.
+  (* the two openers *)
+  assert (Hopener : forall d ty, (d = 36 \/ d = 37) -> (ty = TokenTemplateInterp \/ ty = TokenTemplateControl) ->
+            r = R (m_tmpl_open d) (a_begin_tmpl ty) ->
+            forall r', In r' rules_heredoc -> r_match r' (c :: b' ++ t0 :: t1) = r_match r' (c :: b' ++ t')).
+  { intros d ty Hd Hty -> r' Hin'. unfold R in Hm. cbn [r_match] in Hm. rewrite m_tmpl_open_eq in Hm.
+    assert (Hoe : e = EOne TokenTemplateInterp \/ e = EOne TokenTemplateControl).
+    { unfold R in Ha. cbn [r_act] in Ha. unfold a_begin_tmpl in Ha. inversion Ha. destruct Hty as [-> | ->]; auto. }
+    specialize (Hopen Hoe).
+    destruct b' as [|c1 b''].
+    { exfalso. cbn [app m_tmpl_open'] in Hm. destruct ((t0 =? 123) && (c =? d)); [|discriminate].
+      cbn [length] in Hlen. destruct (starts_with 126 t1); unfold same in Hm; inversion Hm; subst; simpl in Hlen; lia. }
+    cbn [app m_tmpl_open'] in Hm.
+    destruct ((c1 =? 123) && (c =? d)) eqn:E; [|discriminate].
+    apply andb_true_iff in E. destruct E as [E1 E2]. apply Z.eqb_eq in E1, E2. subst c1 c.
+    destruct (starts_with 126 (b'' ++ t0 :: t1)) eqn:Es; unfold same in Hm; inversion Hm; subst lk n; cbn [length Nat.max] in Hlen.
+    - destruct b'' as [|c2 [|c3 b3]]; simpl in Hlen; try lia. cbn [app starts_with] in Es. apply Z.eqb_eq in Es. subst c2.
+      cbn [app]. destruct Hd as [-> | ->]; each_heredoc_rule Hin' ltac:(first
+        [ rewrite !m_tmpl_open_eq; reflexivity
+        | rewrite !eol_open by reflexivity; reflexivity | rewrite !mid_open by reflexivity; reflexivity | agree_s ]).
+    - destruct b'' as [|c2 b3]; simpl in Hlen; try lia. cbn [app] in *.
+      specialize (Hopen d eq_refl).
+      destruct Hd as [-> | ->]; each_heredoc_rule Hin' ltac:(first
+        [ rewrite !m_tmpl_open_eq; unfold m_tmpl_open'; cbn [Z.eqb andb]; rewrite Es, Hopen; reflexivity
+        | rewrite !m_tmpl_open_eq; reflexivity
+        | rewrite !eol_open by reflexivity; reflexivity | rewrite !mid_open by reflexivity; reflexivity | agree_s ]). }
+  destruct Hin as [<-|Hin]; [eapply Hopener; [left; reflexivity|left; reflexivity|reflexivity]|].
+  destruct Hin as [<-|Hin]; [eapply Hopener; [right; reflexivity|right; reflexivity|reflexivity]|].
+  clear Hopener.
+  (* the two literal rules: common part *)
+  assert (Hlit : (m_heredoc_eol (c :: b' ++ t0 :: t1) = Some (lk, n) \/ m_heredoc_mid (c :: b' ++ t0 :: t1) = Some (lk, n)) ->
+            (is_dp c = true -> e = EOne TokenStringLit) ->
+            (e = EOne TokenStringLit \/ (spc (c :: b' ++ t0 :: t1) 0 0 < length (c :: b'))%nat) ->
+            forall r', In r' rules_heredoc -> r_match r' (c :: b' ++ t0 :: t1) = r_match r' (c :: b' ++ t')).
+  { intros Hwin Hdpe Hcase r' Hin'.
+    destruct (is_dp c) eqn:Edp.
+    - (* decided by a short prefix *)
+      specialize (Hag (Hdpe eq_refl)).
+      destruct (dep_le c _ lk n Edp Hwin) as [Hdep Hnot].
+      assert (Hpre : firstn (length (c :: b') + 2) ((c :: b') ++ t0 :: t1) = firstn (length (c :: b') + 2) ((c :: b') ++ t'))
+        by (apply firstn_app2; exact Hag).
+      cbn [app] in Hpre.
+      destruct (dp_prefix_agree (c :: b' ++ t0 :: t1) (c :: b' ++ t')) as [He1 He2]; [|exact Hnot|].
+      { eapply firstn_le_eq; [exact Hpre|]. rewrite Hlen. exact Hdep. }
+      assert (H3 : firstn 3 (c :: b' ++ t0 :: t1) = firstn 3 (c :: b' ++ t')).
+      { eapply firstn_le_eq; [exact Hpre|]. simpl. lia. }
+      each_heredoc_rule Hin' ltac:(first
+        [ apply tmpl_open_prefix; exact H3 | exact He1 | exact He2 | reflexivity ]).
+    - (* a run of ordinary characters *)
+      assert (Hnew : spc (c :: b' ++ t') 0 0 = spc (c :: b' ++ t0 :: t1) 0 0 /\
+                     newline_len (skipn (spc (c :: b' ++ t0 :: t1) 0 0) (c :: b' ++ t')) =
+                     newline_len (skipn (spc (c :: b' ++ t0 :: t1) 0 0) (c :: b' ++ t0 :: t1))).
+      { rewrite (eol_nodp c _ Edp), (mid_nodp c _ Edp) in Hwin. cbv zeta in Hwin.
+        set (k := spc (c :: b' ++ t0 :: t1) 0 0) in *.
+        destruct Hwin as [Hw|Hw].
+        + (* the newline lies inside the token *)
+          destruct (newline_len (skipn k (c :: b' ++ t0 :: t1))) as [|nl'] eqn:En; [discriminate|].
+          unfold same in Hw. inversion Hw; subst lk n.
+          replace (Nat.max 1 (k + S nl')) with (k + S nl')%nat in Hlen by lia.
+          destruct (line_inside (c :: b') (t0 :: t1) k (S nl') eq_refl En ltac:(discriminate) ltac:(lia) t') as [H1 H2].
+          cbn [app] in H1, H2. rewrite H1, H2. split; reflexivity.
+        + (* the run ends where the token ends *)
+          destruct k as [|k'] eqn:Ek; [discriminate|]. unfold same in Hw. inversion Hw; subst lk n.
+          replace (Nat.max 1 (S k')) with (S k') in Hlen by lia.
+          destruct Hcase as [Hes|Hlt]; [|cbn [length] in *; lia].
+          specialize (Hag Hes). specialize (Hhard Hes).
+          assert (H0 : spc (t0 :: t1) 0 0 = O).
+          { apply (sc_cont (c :: b') (t0 :: t1) 0 0 ltac:(lia)). cbn [app]. fold k. rewrite Ek, Hlen. reflexivity. }
+          destruct (Hhard H0) as [Hx|(c0 & y & Ey & Hc0)]; [discriminate|]. inversion Ey; subst c0 y.
+          assert (Ht' : exists y', t' = t0 :: y').
+          { destruct t' as [|a y']; [cbn in Hag; discriminate|]. cbn in Hag. destruct t1, y'; inversion Hag; eauto. }
+          destruct Ht' as (y' & ->).
+          assert (Hst : sc_stop (t0 :: y')) by (apply sc_stop_hard; exact Hc0).
+          assert (H1 : spc (c :: b' ++ t0 :: y') 0 0 = S k').
+          { rewrite <- Hlen. apply (sc_app (c :: b') (t0 :: t1) 0 0 ltac:(lia)); [cbn [app]; fold k; rewrite Ek, Hlen; reflexivity|exact Hst]. }
+          split; [exact H1|].
+          assert (Hsk : forall u, skipn (S k') (c :: b' ++ u) = u).
+          { intro u. change (c :: b' ++ u) with ((c :: b') ++ u). rewrite skipn_app.
+            rewrite skipn_all2 by lia. replace (S k' - length (c :: b'))%nat with O by lia. reflexivity. }
+          rewrite !Hsk. apply newline_len_firstn2. symmetry. exact Hag. }
+      destruct Hnew as [Hn1 Hn2].
+      assert (E36 : (c =? 36) = false /\ (c =? 37) = false) by (unfold is_dp in Edp; apply orb_false_iff in Edp; exact Edp).
+      destruct E36 as [E36 E37].
+      each_heredoc_rule Hin' ltac:(first
+        [ rewrite !gs_open by assumption; reflexivity
+        | rewrite !(eol_nodp c _ Edp); cbv zeta; rewrite Hn1, Hn2; reflexivity
+        | rewrite !(mid_nodp c _ Edp); rewrite Hn1; reflexivity
+        | reflexivity ]). }
+  destruct Hin as [<-|Hin].
+  { (* a line or the rest of a line up to its newline *)
+    cbn [r_act R] in Ha. destruct (a_heredoc_eol_emit _ _ _ _ Ha) as [(k2 & He)|He].
+    - (* the closing line *)
+      destruct (Htwo _ _ _ He) as (c0 & b0 & Eb & Hc0). inversion Eb; subst c0 b0.
+      apply Hlit.
+      + left. exact Hm.
+      + intro Hx. congruence.
+      + right. unfold R in Hm. cbn [r_match] in Hm. rewrite (eol_nodp c _ Hc0) in Hm. cbv zeta in Hm.
+        set (k := spc (c :: b' ++ t0 :: t1) 0 0) in *.
+        destruct (newline_len _) as [|nl']; [discriminate|]. unfold same in Hm. inversion Hm; subst lk n.
+        rewrite Hlen. lia.
+    - apply Hlit; [left; exact Hm|intros _; exact He|left; exact He]. }
+  destruct Hin as [<-|Hin].
+  { cbn [r_act R] in Ha. pose proof (a_heredoc_mid_emit _ _ _ _ Ha) as He.
+    apply Hlit; [right; exact Hm|intros _; exact He|left; exact He]. }
+  destruct Hin as [<-|Hin]; [unclean_s Ha Hok|].
+  destruct Hin.
+Qed.
+
+(* ---- heredoc markers ---------------------------------------------------------------------------- *)
+
+(* a marker never starts with '$' or '%' *)
+Definition mk_ok (m : list Z) : Prop := match m with c :: _ => is_dp c = false | [] => False end.
+Definition mkinv (st : hstate) : Prop := Forall (fun h => mk_ok (h_marker h)) (l_hdocs st).
+
+Lemma first_prefix_some : forall ps s n, first_prefix ps s = Some n ->
+  exists p, In p ps /\ is_prefix p s = true /\ n = length p.
+Proof.
+  induction ps as [|p ps IH]; intros s n H; cbn [first_prefix] in H; [discriminate|].
+  destruct (is_prefix p s) eqn:E.
+  - inversion H; subst. exists p. split; [left; reflexivity|auto].
+  - destruct (IH _ _ H) as (q & Hq & H1 & H2). exists q. split; [right; exact Hq|auto].
+Qed.
+
+Lemma is_prefix_notin (d : Z) : forall p l, is_prefix p (l ++ [d]) = true -> ~ In d p -> (length p <= length l)%nat.
+Proof.
+  induction p as [|a p IH]; intros l H Hn; [simpl; lia|].
+  destruct l as [|c l].
+  - exfalso. cbn in H. apply andb_true_iff in H. destruct H as [H _]. apply Z.eqb_eq in H. subst a.
+    apply Hn. left. reflexivity.
+  - cbn [app is_prefix] in H. apply andb_true_iff in H. destruct H as [_ H].
+    apply IH in H; [simpl; lia|]. intro Hx. apply Hn. right. exact Hx.
+Qed.
+
+Lemma trim_left_keep_last (d : Z) ps : Forall (fun p => ~ In d p) ps ->
+  forall l skip, (skip <= length l)%nat -> exists l', trim_left ps (l ++ [d]) skip = l' ++ [d].
+Proof.
+  intros Hps. induction l as [|c l IH]; intros skip Hk.
+  - destruct skip; [|simpl in Hk; lia]. cbn [app trim_left].
+    destruct (first_prefix ps [d]) as [[|a]|] eqn:E; try (exists []; reflexivity).
+    exfalso. destruct (first_prefix_some _ _ _ E) as (p & Hp & Hpre & Hl).
+    rewrite Forall_forall in Hps. pose proof (is_prefix_notin d p [] Hpre (Hps p Hp)). simpl in *. lia.
+  - cbn [app trim_left]. destruct skip as [|k].
+    + destruct (first_prefix ps (c :: l ++ [d])) as [[|a]|] eqn:E; try (exists (c :: l); reflexivity).
+      destruct (first_prefix_some _ _ _ E) as (p & Hp & Hpre & Hl).
+      rewrite Forall_forall in Hps.
+      pose proof (is_prefix_notin d p (c :: l) Hpre (Hps p Hp)). simpl in *. apply IH. lia.
+    + apply IH. simpl in Hk. lia.
+Qed.
+
+Definition notin_all (d : Z) (ps : list (list Z)) : bool :=
+  forallb (fun p => negb (existsb (Z.eqb d) p)) ps.
+
+Lemma notin_all_ok d ps : notin_all d ps = true -> Forall (fun p => ~ In d p) ps.
+Proof.
+  unfold notin_all. rewrite forallb_forall, Forall_forall. intros H p Hp Hin.
+  specialize (H p Hp). apply negb_true_iff in H.
+  assert (X : existsb (Z.eqb d) p = true) by (apply existsb_exists; exists d; split; [exact Hin|apply Z.eqb_refl]).
+  congruence.
+Qed.
+
+Lemma trim_dp d x : is_dp d = true -> exists y, trim_space (d :: x) = d :: y.
+Proof.
+  intro Hd. unfold trim_space.
+  assert (H1 : trim_left space_seqs (d :: x) 0 = d :: x).
+  { cbn [trim_left]. destruct (is_dp_cases d Hd) as [-> | ->].
+    - replace (first_prefix space_seqs (36 :: x)) with (@None nat) by (vm_compute; reflexivity). reflexivity.
+    - replace (first_prefix space_seqs (37 :: x)) with (@None nat) by (vm_compute; reflexivity). reflexivity. }
+  rewrite H1. cbn [rev].
+  assert (Hps : Forall (fun p => ~ In d p) (map (@rev Z) space_seqs)).
+  { apply notin_all_ok. destruct (is_dp_cases d Hd) as [-> | ->]; vm_compute; reflexivity. }
+  destruct (trim_left_keep_last d _ Hps (rev x) 0 ltac:(lia)) as (l' & ->).
+  rewrite rev_app_distr. cbn. eauto.
+Qed.
+
+Lemma close_not_dp (st : hstate) b t1 k t2 st' :
+  mkinv st -> a_heredoc_eol st b = Some (ETwo t1 k t2, st') -> b <> [] ->
+  exists c b', b = c :: b' /\ is_dp c = false.
+Proof.
+  intros Hmk Ha Hne. unfold a_heredoc_eol in Ha. destruct (l_hdocs st) as [|top rest] eqn:Eh; [discriminate|].
+  destruct (h_sol top && zlist_eqb (trim_space b) (h_marker top)) eqn:E; [|discriminate].
+  apply andb_true_iff in E. destruct E as [_ E]. apply zlist_eqb_eq in E.
+  unfold mkinv in Hmk. rewrite Eh in Hmk. inversion Hmk as [|? ? Hm _]; subst.
+  destruct b as [|c b']; [contradiction|]. exists c, b'. split; [reflexivity|].
+  destruct (is_dp c) eqn:Ec; [|reflexivity]. exfalso.
+  destruct (trim_dp c b' Ec) as (y & Ey). rewrite Ey in E. rewrite <- E in Hm. cbn in Hm. congruence.
+Qed.
+
+Lemma heredoc_begin_decomp b t : m_heredoc_begin (b ++ t) = same (length b) ->
+  exists dash ic ib nb, b = 60 :: 60 :: dash ++ (ic :: ib) ++ nb /\
+    ((dash = [] /\ ic <> 45) \/ dash = [45]) /\ ident_len ((ic :: ib) ++ nb ++ t) = S (length ib) /\
+    (nb = [10] \/ nb = [13; 10]).
+Proof.
+  intro H. destruct (heredoc_begin_hd b t _ H eq_refl) as (b2 & ->).
+  cbn [app length] in *. unfold m_heredoc_begin in *. cbn [Z.eqb andb] in *. cbv zeta in *.
+  destruct b2 as [|x b3].
+  { exfalso. cbn [app] in H. destruct (ident_len _); [discriminate|]. destruct (newline_len _); [discriminate|].
+    unfold same in H. inversion H. lia. }
+  cbn [app starts_with] in *.
+  set (d := if x =? 45 then 1%nat else O) in *.
+  assert (Hsk : forall u, skipn d (x :: b3 ++ u) = skipn d (x :: b3) ++ u).
+  { intro u. unfold d. destruct (x =? 45); reflexivity. }
+  rewrite Hsk in *. set (b4 := skipn d (x :: b3)) in *.
+  assert (Hb4 : length b4 = (S (length b3) - d)%nat) by (unfold b4; rewrite skipn_length; reflexivity).
+  assert (Hd : (d <= 1)%nat) by (unfold d; destruct (x =? 45); lia).
+  destruct (ident_len (b4 ++ t)) as [|k'] eqn:Ek; [discriminate|].
+  destruct (newline_len (skipn (S k') (b4 ++ t))) as [|nl'] eqn:En; [discriminate|].
+  unfold same in H. assert (Hn : (2 + d + S k' + S nl' = S (S (S (length b3))))%nat) by (inversion H; reflexivity).
+  assert (Hk : (S k' <= length b4)%nat) by lia.
+  rewrite skipn_app in En. replace (S k' - length b4)%nat with O in En by lia. rewrite skipn_O in En.
+  set (ib := firstn (S k') b4). set (nb := skipn (S k') b4) in *.
+  assert (Hsplit : b4 = ib ++ nb) by (symmetry; apply firstn_skipn).
+  assert (Hib : length ib = S k') by (unfold ib; rewrite firstn_length; lia).
+  assert (Hnb : length nb = S nl') by (unfold nb; rewrite skipn_length; lia).
+  assert (Hnbv : nb = [10] \/ nb = [13; 10]).
+  { destruct (newline_len_inv (nb ++ t) ltac:(rewrite En; discriminate)) as [[(y & Ey) E1]|[(y & Ey) E2]].
+    - rewrite En in E1. inversion E1; subst nl'. destruct nb as [|c1 [|c2 nb']]; simpl in Hnb; try lia.
+      cbn [app] in Ey. inversion Ey; subst c1. left. reflexivity.
+    - rewrite En in E2. inversion E2; subst nl'. destruct nb as [|c1 [|c2 [|c3 nb']]]; simpl in Hnb; try lia.
+      cbn [app] in Ey. inversion Ey; subst c1 c2. right. reflexivity. }
+  assert (Hib2 : exists ic ib', ib = ic :: ib').
+  { destruct ib as [|ic ib'] eqn:Eib; [simpl in Hib; lia|]. eauto. }
+  destruct Hib2 as (ic & ib' & Eib). clearbody ib nb. subst ib.
+  exists (firstn d (x :: b3)), ic, ib', nb.
+  split.
+  { f_equal. f_equal. change (ic :: ib' ++ nb) with ((ic :: ib') ++ nb). rewrite <- Hsplit. unfold b4. symmetry. apply firstn_skipn. }
+  split.
+  { unfold d in *. destruct (x =? 45) eqn:E45.
+    - right. apply Z.eqb_eq in E45. subst x. reflexivity.
+    - left. split; [reflexivity|]. cbn [skipn] in b4. subst b4. cbn [app] in Hsplit. inversion Hsplit; subst ic.
+      apply Z.eqb_neq. exact E45. }
+  split; [|exact Hnbv].
+  rewrite Hsplit, <- app_assoc in Ek. simpl in Hib. inversion Hib as [H1]. rewrite H1. exact Ek.
+Qed.
+
+Lemma removelast_app_single {A} (l : list A) a : removelast (l ++ [a]) = l.
+Proof. apply removelast_last. Qed.
+
+Lemma begin_marker_ok b t m : m_heredoc_begin (b ++ t) = same (length b) ->
+  heredoc_marker b = Some m -> mk_ok m.
+Proof.
+  intros H Hmk. destruct (heredoc_begin_decomp b t H) as (dash & ic & ib & nb & -> & Hdash & Hid & Hnb).
+  assert (Hic : is_dp ic = false).
+  { pose proof (ident_first_ne ic (ib ++ nb ++ t)) as F. cbn [app] in Hid. rewrite Hid in F.
+    specialize (F ltac:(discriminate)). destruct (nonident_facts ic F) as (_ & _ & _ & Fk).
+    unfold is_dp. rewrite (existsb_false_ne ic nonident 36 F), (existsb_false_ne ic nonident 37 F); [reflexivity|..];
+      unfold nonident; cbn [In]; tauto. }
+  assert (Hic13 : ic <> 13).
+  { intro E. subst ic. cbn [app] in Hid. vm_compute in Hic. pose proof (ident_first_ne 13 (ib ++ nb ++ t)) as F.
+    rewrite Hid in F. specialize (F ltac:(discriminate)). vm_compute in F. discriminate. }
+  unfold heredoc_marker in Hmk. cbn [skipn] in Hmk.
+  (* removelast of the part after "<<" *)
+  assert (Hrl : exists rn, (rn = [] \/ rn = [13]) /\ removelast (dash ++ (ic :: ib) ++ nb) = dash ++ (ic :: ib) ++ rn).
+  { destruct Hnb as [-> | ->].
+    - exists []. split; [left; reflexivity|]. rewrite app_nil_r, app_assoc. apply removelast_last.
+    - exists [13]. split; [right; reflexivity|].
+      change [13; 10] with ([13] ++ [10]). rewrite !app_assoc. rewrite removelast_last. rewrite <- app_assoc. reflexivity. }
+  destruct Hrl as (rn & Hrn & Erl). rewrite Erl in Hmk.
+  assert (Hm1 : exists rest, m = ic :: rest).
+  { assert (X : forall m1, m1 = ic :: ib ++ rn ->
+       Some (if last m1 0 =? 13 then removelast m1 else m1) = Some m -> exists rest, m = ic :: rest).
+    { intros m1 -> Hx. destruct (last (ic :: ib ++ rn) 0 =? 13) eqn:El; inversion Hx; [|eauto].
+      destruct (ib ++ rn) as [|c2 l2] eqn:E2.
+      - exfalso. cbn in El. apply Z.eqb_eq in El. contradiction.
+      - cbn [removelast]. eauto. }
+    destruct Hdash as [[-> Hn45]| ->]; cbn [app] in Hmk.
+    - apply Z.eqb_neq in Hn45. rewrite Hn45 in Hmk. eapply X; [reflexivity|exact Hmk].
+    - change (45 =? 45) with true in Hmk. cbv iota in Hmk. eapply X; [reflexivity|exact Hmk]. }
+  destruct Hm1 as (rest & ->). exact Hic.
+Qed.
+
+(* ---- the closing line of a heredoc ------------------------------------------------------------------ *)
+
+Lemma eol_line_last c b' t lk n : is_dp c = false ->
+  m_heredoc_eol ((c :: b') ++ t) = Some (lk, n) -> length (c :: b') = n -> last (c :: b') 0 = 10.
+Proof.
+  intros Hc Hm Hl. cbn [app] in Hm. rewrite (eol_nodp c _ Hc) in Hm. cbv zeta in Hm.
+  set (k := spc (c :: b' ++ t) 0 0) in *.
+  destruct (newline_len (skipn k (c :: b' ++ t))) as [|nl'] eqn:En; [discriminate|].
+  unfold same in Hm. inversion Hm; subst lk n.
+  set (b := c :: b') in *. change (c :: b' ++ t) with (b ++ t) in *.
+  assert (Hsk : skipn k (b ++ t) = skipn k b ++ t).
+  { rewrite skipn_app. replace (k - length b)%nat with O by lia. rewrite skipn_O. reflexivity. }
+  rewrite Hsk in En. set (nb := skipn k b) in *.
+  assert (Hnb : length nb = S nl') by (unfold nb; rewrite skipn_length; lia).
+  assert (Hb : b = firstn k b ++ nb) by (symmetry; apply firstn_skipn).
+  rewrite Hb.
+  destruct (newline_len_inv (nb ++ t) ltac:(rewrite En; discriminate)) as [[(y & Ey) E1]|[(y & Ey) E2]].
+  - rewrite En in E1. inversion E1; subst nl'. destruct nb as [|c1 [|c2 nb']]; simpl in Hnb; try lia.
+    cbn [app] in Ey. inversion Ey; subst c1. apply last_last.
+  - rewrite En in E2. inversion E2; subst nl'. destruct nb as [|c1 [|c2 [|c3 nb']]]; simpl in Hnb; try lia.
+    cbn [app] in Ey. inversion Ey; subst c1 c2. change [13; 10] with ([13] ++ [10]). rewrite app_assoc. apply last_last.
+Qed.
+
+(* the Newline token split off the closing line *)
+Lemma close_tok2 (b : list Z) : b <> [] -> last b 0 = 10 ->
+  let k := if last (removelast b) 0 =? 13 then 2%nat else 1%nat in
+  skipn (length b - k) b = [10] \/ skipn (length b - k) b = [13; 10].
+Proof.
+  intros Hne Hl. cbv zeta. pose proof (app_removelast_last 0 Hne) as Hb. rewrite Hl in Hb.
+  set (rl := removelast b) in *. destruct (last rl 0 =? 13) eqn:E.
+  - right. apply Z.eqb_eq in E.
+    assert (Hr : rl <> []) by (intro Hx; rewrite Hx in E; discriminate E).
+    pose proof (app_removelast_last 0 Hr) as Hr2. rewrite E in Hr2.
+    rewrite Hb, Hr2, <- app_assoc. cbn [app]. rewrite app_length. cbn [length].
+    replace (length (removelast rl) + 2 - 2)%nat with (length (removelast rl) + 0)%nat by lia.
+    rewrite skipn_app, skipn_all2 by lia. replace (length (removelast rl) + 0 - length (removelast rl))%nat with O by lia. reflexivity.
+  - left. rewrite Hb at 2. rewrite Hb at 1. rewrite app_length. cbn [length].
+    replace (length rl + 1 - 1)%nat with (length rl + 0)%nat by lia.
+    rewrite skipn_app, skipn_all2 by lia. replace (length rl + 0 - length rl)%nat with O by lia. reflexivity.
+Qed.
+
+(* the closing line has at least two bytes *)
+Lemma close_len2 (st : hstate) b t1 k t2 st' :
+  mkinv st -> a_heredoc_eol st b = Some (ETwo t1 k t2, st') -> last b 0 = 10 -> (2 <= length b)%nat.
+Proof.
+  intros Hmk Ha Hl. destruct b as [|c [|c2 b']]; [discriminate Hl| |simpl; lia].
+  exfalso. cbn in Hl. subst c.
+  unfold a_heredoc_eol in Ha. destruct (l_hdocs st) as [|top rest] eqn:Eh; [discriminate|].
+  destruct (h_sol top && zlist_eqb (trim_space [10]) (h_marker top)) eqn:E; [|discriminate].
+  apply andb_true_iff in E. destruct E as [_ E]. apply zlist_eqb_eq in E.
+  unfold mkinv in Hmk. rewrite Eh in Hmk. inversion Hmk as [|? ? Hm _]; subst.
+  assert (Et : trim_space [10] = []) by (vm_compute; reflexivity). rewrite Et in E. rewrite <- E in Hm. exact Hm.
+Qed.
+
+(* ==== 5. steps of the three scanners; re-spacing with templates; layout => relex ===== *)
+
+(* token types that only the string / heredoc scanners emit (lexed without skipping blanks) *)
+
+(* the fragment without heredocs *)
+
+Definition okm (m : hmode) : Prop := m = MMain \/ m = MString \/ m = MHeredoc.
 Definition okmodes (st : hstate) : Prop := Forall okm (l_cur st :: l_stack st).
-Definition Inv (st : hstate) : Prop := hinv st /\ okmodes st.
+Definition Inv (st : hstate) : Prop := hinv st /\ okmodes st /\ mkinv st.
 
 Lemma nohd_ty_inv t : nohd_ty t = true -> clean_ty t = true /\ t <> TokenOHeredoc.
 Proof.
@@ -1790,10 +2483,10 @@ Proof.
   apply negb_true_iff in H2. apply Z.eqb_neq in H2. auto.
 Qed.
 
-Lemma okmodes_fcall m st : okm m -> okmodes st -> okmodes (fcall m st).
+Lemma okmodes_fcall m (st : hstate) : okm m -> okmodes st -> okmodes (fcall m st).
 Proof. intros Hm H. unfold okmodes, fcall. cbn. constructor; assumption. Qed.
 
-Lemma okmodes_fret st st' : fret st = Some st' -> okmodes st -> okmodes st'.
+Lemma okmodes_fret (st st' : hstate) : fret st = Some st' -> okmodes st -> okmodes st'.
 Proof.
   unfold fret, okmodes. destruct (l_stack st) as [|m r] eqn:E; [discriminate|]. intro H. inversion H; subst.
   cbn. intro Ho. inversion Ho; subst. assumption.
@@ -1801,6 +2494,35 @@ Qed.
 
 Lemma okmodes_same (st st' : hstate) : l_cur st' = l_cur st -> l_stack st' = l_stack st -> okmodes st -> okmodes st'.
 Proof. unfold okmodes. intros -> ->. auto. Qed.
+
+Lemma mkinv_same (st st' : hstate) : l_hdocs st' = l_hdocs st -> mkinv st -> mkinv st'.
+Proof. unfold mkinv. intros ->. auto. Qed.
+
+Lemma fret_hdocs (st st' : hstate) : fret st = Some st' -> l_hdocs st' = l_hdocs st.
+Proof. unfold fret. destruct (l_stack st); [discriminate|]. intro H. inversion H. reflexivity. Qed.
+
+Lemma set_top_sol_markers v (st st' : hstate) : set_top_sol v st = Some st' ->
+  map h_marker (l_hdocs st') = map h_marker (l_hdocs st) /\ l_cur st' = l_cur st /\ l_stack st' = l_stack st.
+Proof.
+  unfold set_top_sol. destruct (l_hdocs st) as [|h r] eqn:E; [discriminate|]. intro H. inversion H; subst. cbn.
+  auto.
+Qed.
+
+Lemma mkinv_markers (st st' : hstate) : map h_marker (l_hdocs st') = map h_marker (l_hdocs st) -> mkinv st -> mkinv st'.
+Proof.
+  unfold mkinv. intros H Hm. rewrite Forall_forall in *. intros h Hh.
+  assert (In (h_marker h) (map h_marker (l_hdocs st))) by (rewrite <- H; apply in_map; exact Hh).
+  apply in_map_iff in H0. destruct H0 as (h0 & E & Hh0). rewrite <- E. apply Hm. exact Hh0.
+Qed.
+
+Definition mode3 (st : hstate) : Prop := l_cur st = MMain \/ l_cur st = MString \/ l_cur st = MHeredoc.
+
+Lemma okmodes_mode3 (st : hstate) : okmodes st -> mode3 st.
+Proof. intro H. inversion H; subst. assumption. Qed.
+
+(* types after which the scanner is inside a template *)
+Definition tl_before : list Z :=
+  [TokenOQuote; TokenQuotedLit; TokenTemplateSeqEnd; TokenOHeredoc; TokenStringLit].
 
 (* ---- one step of the main scanner, any state ------------------------------------------------ *)
 
@@ -1810,51 +2532,81 @@ Proof.
   repeat (destruct H as [<-|H]; [reflexivity|]). destruct H.
 Qed.
 
-Lemma main_step2 (st : hstate) r s lk n e st' :
-  okmodes st -> l_cur st = MMain -> In r rules_main -> r_match r s = Some (lk, n) ->
-  r_act r st (firstn (Nat.max 1 n) s) = Some (e, st') -> e <> ENone ->
-  (forall ty, In ty (emit_types e) -> nohd_ty ty = true) ->
-  exists ty, e = EOne ty /\ tl_ty ty = false /\ okmodes st' /\
-             (l_cur st' = MMain \/ l_cur st' = MString) /\
-             (l_cur st' = MString -> ty = TokenOQuote \/ ty = TokenTemplateSeqEnd).
+Lemma heredoc_begin_bound s n : m_heredoc_begin s = Some (n, n) -> (n <= length s)%nat /\ (1 <= n)%nat.
 Proof.
-  intros Ho Hc Hin Hm Ha He Hs.
+  unfold m_heredoc_begin. destruct s as [|c0 [|c1 r]]; try discriminate.
+  destruct ((c0 =? 60) && (c1 =? 60)); [|discriminate]. cbv zeta.
+  set (d := if starts_with 45 r then 1%nat else O). set (r1 := skipn d r).
+  destruct (ident_len r1) as [|k'] eqn:Ek; [discriminate|].
+  destruct (newline_len (skipn (S k') r1)) as [|nl'] eqn:En; [discriminate|].
+  unfold same. intro H. assert (Hn : n = (2 + d + S k' + S nl')%nat) by (inversion H; reflexivity).
+  pose proof (ident_len_le r1) as Hk. rewrite Ek in Hk.
+  pose proof (newline_len_le (skipn (S k') r1)) as Hnl. rewrite En in Hnl. rewrite skipn_length in Hnl.
+  assert (Hr1 : length r1 = (length r - d)%nat) by (unfold r1; apply skipn_length).
+  cbn [length]. lia.
+Qed.
+
+Lemma main_step3 (st : hstate) r s lk n e st' :
+  Inv st -> l_cur st = MMain -> In r rules_main -> r_match r s = Some (lk, n) ->
+  r_act r st (firstn (Nat.max 1 n) s) = Some (e, st') -> e <> ENone ->
+  exists ty, e = EOne ty /\ tl_ty ty = false /\ okmodes st' /\ mkinv st' /\
+             (l_cur st' <> MMain -> In ty tl_before).
+Proof.
+  intros (Hh & Ho & Hmk) Hc Hin Hm Ha He.
   assert (Keep : forall ty, e = EOne ty -> tl_ty ty = false -> l_cur st' = l_cur st -> l_stack st' = l_stack st ->
-            exists ty0, e = EOne ty0 /\ tl_ty ty0 = false /\ okmodes st' /\
-                        (l_cur st' = MMain \/ l_cur st' = MString) /\
-                        (l_cur st' = MString -> ty0 = TokenOQuote \/ ty0 = TokenTemplateSeqEnd)).
-  { intros ty -> Ht Hc' Hk. exists ty. split; [reflexivity|]. split; [exact Ht|]. split.
+            l_hdocs st' = l_hdocs st ->
+            exists ty0, e = EOne ty0 /\ tl_ty ty0 = false /\ okmodes st' /\ mkinv st' /\
+                        (l_cur st' <> MMain -> In ty0 tl_before)).
+  { intros ty -> Ht Hc' Hk Hd. exists ty. split; [reflexivity|]. split; [exact Ht|]. split.
     - eapply okmodes_same; eassumption.
-    - rewrite Hc', Hc. split; [left; reflexivity|]. intro; discriminate. }
+    - split; [eapply mkinv_same; eassumption|]. rewrite Hc', Hc. intro X. contradiction. }
   unfold rules_main, rule_spaces in Hin; cbn [In] in Hin.
-  repeat (destruct Hin as [<-|Hin];
+  do 19 (destruct Hin as [<-|Hin];
     [ cbn [r_act R] in Ha;
       first
         [ unfold a_skip in Ha; inversion Ha; subst; contradiction
         | unfold a_tok in Ha; inversion Ha; subst; eapply Keep; reflexivity
         | cbn [r_match R] in Hm; apply m_self_inv in Hm; destruct Hm as (-> & -> & c0 & y0 & -> & Hself);
           unfold a_self in Ha; simpl in Ha; inversion Ha; subst;
-          eapply Keep; [reflexivity|apply self_not_tl; exact Hself|reflexivity|reflexivity]
+          eapply Keep; [reflexivity|apply self_not_tl; exact Hself|reflexivity|reflexivity|reflexivity]
         | unfold a_open_brace in Ha; inversion Ha; subst; eapply Keep; reflexivity
         | unfold a_close in Ha; destruct (ret_matches st);
           [ destruct (fret _) as [st1|] eqn:Ef; [|discriminate]; inversion Ha; subst;
             exists TokenTemplateSeqEnd; split; [reflexivity|]; split; [reflexivity|];
-            assert (Ho' : okmodes st') by (eapply okmodes_fret; [exact Ef|eapply okmodes_same; [| |exact Ho]; reflexivity]);
-            split; [exact Ho'|]; split; [inversion Ho' as [|? ? Hk _]; exact Hk|]; intro; right; reflexivity
+            split; [eapply okmodes_fret; [exact Ef|eapply okmodes_same; [| |exact Ho]; reflexivity]|];
+            split; [eapply mkinv_same; [|exact Hmk]; rewrite (fret_hdocs _ _ Ef); reflexivity|];
+            intro; unfold tl_before; cbn [In]; tauto
           | inversion Ha; subst; eapply Keep; reflexivity ]
         | unfold a_begin_string in Ha; inversion Ha; subst;
           exists TokenOQuote; split; [reflexivity|]; split; [reflexivity|];
-          split; [apply okmodes_fcall; [right; reflexivity|exact Ho]|];
-          split; [right; reflexivity|]; intro; left; reflexivity
-        | exfalso; apply a_begin_heredoc_emit in Ha; subst;
-          specialize (Hs TokenOHeredoc (or_introl eq_refl)); vm_compute in Hs; discriminate ]
+          split; [apply okmodes_fcall; [right; left; reflexivity|exact Ho]|];
+          split; [exact Hmk|]; intro; unfold tl_before; cbn [In]; tauto ]
     |]).
-  destruct Hin.
+  (* the heredoc opener *)
+  destruct Hin as [<-|Hin].
+  2:{ repeat (destruct Hin as [<-|Hin];
+        [cbn [r_act R] in Ha; unfold a_tok in Ha; inversion Ha; subst; eapply Keep; reflexivity|]). destruct Hin. }
+  cbn [r_act R r_match] in Ha, Hm. pose proof (m_heredoc_begin_same _ _ _ Hm) as ->.
+  destruct (heredoc_begin_bound _ _ Hm) as [Hb1 Hb2].
+  unfold a_begin_heredoc in Ha. destruct (heredoc_marker _) as [m|] eqn:Emk; [|discriminate].
+  inversion Ha; subst e st'. exists TokenOHeredoc. split; [reflexivity|]. split; [reflexivity|].
+  split; [apply okmodes_fcall; [right; right; reflexivity|eapply okmodes_same; [| |exact Ho]; reflexivity]|].
+  split; [|intro; unfold tl_before; cbn [In]; tauto].
+  unfold mkinv. cbn. constructor; [|exact Hmk]. cbn.
+  replace (Nat.max 1 n) with n in Emk by lia.
+  apply (begin_marker_ok (firstn n s) (skipn n s)); [|exact Emk].
+  rewrite firstn_skipn. rewrite firstn_length. replace (Nat.min n (length s)) with n by lia. exact Hm.
 Qed.
 
 (* ---- one step of the string scanner ------------------------------------------------------------ *)
 
 Lemma string_top_main (st : hstate) : hinv st -> l_cur st = MString -> exists l, l_stack st = MMain :: l.
+Proof.
+  intros (W & _) E. rewrite E in W. inversion W; subst;
+    try (match goal with H : _ \/ _ |- _ => destruct H as [H|[H|H]]; discriminate end); eauto.
+Qed.
+
+Lemma heredoc_top_main (st : hstate) : hinv st -> l_cur st = MHeredoc -> exists l, l_stack st = MMain :: l.
 Proof.
   intros (W & _) E. rewrite E in W. inversion W; subst;
     try (match goal with H : _ \/ _ |- _ => destruct H as [H|[H|H]]; discriminate end); eauto.
@@ -1868,55 +2620,392 @@ Proof.
   apply Z.eqb_eq in E1, E2. subst. unfold same. destruct (starts_with 126 r); intro H; inversion H; subst; repeat split; eauto.
 Qed.
 
-Lemma string_step2 (st : hstate) r s lk n e st' :
+(* what a step of a template scanner can be *)
+Definition tstep (st : hstate) (s : list Z) (n : nat) (e : emit) (st' : hstate) : Prop :=
+  ((exists ty, e = EOne ty /\ (ty = TokenTemplateInterp \/ ty = TokenTemplateControl)) /\ l_cur st' = MMain /\
+     (2 <= length (firstn (Nat.max 1 n) s))%nat /\ exists d x, s = d :: 123 :: x)
+  \/ (e = EOne TokenCQuote /\ l_cur st' = MMain /\ exists x, s = 34 :: x /\ n = 1%nat)
+  \/ (e = EOne TokenQuotedLit /\ st' = st)
+  \/ (e = EOne TokenStringLit /\ l_cur st' = l_cur st)
+  \/ ((exists k, e = ETwo TokenCHeredoc k TokenNewline) /\ l_cur st' = MMain /\
+      (2 <= length (firstn (Nat.max 1 n) s))%nat /\
+      (exists c b', firstn (Nat.max 1 n) s = c :: b' /\ is_dp c = false) /\
+      (forall t1 k t2, e = ETwo t1 k t2 ->
+         let b := firstn (Nat.max 1 n) s in
+         skipn (length b - k) b = [10] \/ skipn (length b - k) b = [13; 10])).
+
+Lemma begin_tmpl_step (st : hstate) d ty s lk n e st' :
+  Inv st -> (l_cur st = MString \/ l_cur st = MHeredoc) ->
+  (ty = TokenTemplateInterp \/ ty = TokenTemplateControl) ->
+  m_tmpl_open d s = Some (lk, n) -> a_begin_tmpl ty st (firstn (Nat.max 1 n) s) = Some (e, st') ->
+  okmodes st' /\ mkinv st' /\ tstep st s n e st'.
+Proof.
+  intros (Hh & Ho & Hmk) Hc Hty Hm' Ha'. apply m_tmpl_open_inv in Hm'. destruct Hm' as (-> & Hn & x & ->).
+  unfold a_begin_tmpl in Ha'. inversion Ha'; subst e st'. clear Ha'.
+  split.
+  { apply okmodes_fcall; [left; reflexivity|].
+    destruct (set_top_sol _ _) eqn:Es.
+    - destruct (set_top_sol_markers _ _ _ Es) as (_ & E1 & E2). eapply okmodes_same; [exact E1|exact E2|].
+      eapply okmodes_same; [| |exact Ho]; reflexivity.
+    - eapply okmodes_same; [| |exact Ho]; reflexivity. }
+  split.
+  { unfold fcall, mkinv. cbn [l_hdocs].
+    destruct (set_top_sol _ _) eqn:Es.
+    - destruct (set_top_sol_markers _ _ _ Es) as (E0 & _ & _). eapply mkinv_markers; [exact E0|]. exact Hmk.
+    - exact Hmk. }
+  left. split; [exists ty; auto|]. split; [reflexivity|]. split.
+  - replace (Nat.max 1 n) with n by lia. rewrite firstn_length. simpl. lia.
+  - eauto.
+Qed.
+
+Lemma string_step3 (st : hstate) r s lk n e st' :
   Inv st -> l_cur st = MString -> In r rules_string -> r_match r s = Some (lk, n) ->
   r_act r st (firstn (Nat.max 1 n) s) = Some (e, st') -> emits_clean e ->
-  exists ty, e = EOne ty /\ tl_ty ty = true /\ okmodes st' /\
-    (((ty = TokenTemplateInterp \/ ty = TokenTemplateControl) /\ l_cur st' = MMain /\
-        (2 <= length (firstn (Nat.max 1 n) s))%nat /\ exists d x, s = d :: 123 :: x)
-     \/ (ty = TokenCQuote /\ l_cur st' = MMain /\ exists x, s = 34 :: x /\ n = 1%nat)
-     \/ (ty = TokenQuotedLit /\ st' = st)).
+  okmodes st' /\ mkinv st' /\ tstep st s n e st'.
 Proof.
-  intros [Hi Ho] Hc Hin Hm Ha Hok.
+  intros Hi Hc Hin Hm Ha Hok. pose proof Hi as (Hh & Ho & Hmk).
   unfold rules_string in Hin; cbn [In] in Hin.
-  assert (Hopen : forall d ty, (ty = TokenTemplateInterp \/ ty = TokenTemplateControl) ->
-     m_tmpl_open d s = Some (lk, n) -> a_begin_tmpl ty st (firstn (Nat.max 1 n) s) = Some (e, st') ->
-     exists ty0, e = EOne ty0 /\ tl_ty ty0 = true /\ okmodes st' /\
-    (((ty0 = TokenTemplateInterp \/ ty0 = TokenTemplateControl) /\ l_cur st' = MMain /\
-        (2 <= length (firstn (Nat.max 1 n) s))%nat /\ exists d x, s = d :: 123 :: x)
-     \/ (ty0 = TokenCQuote /\ l_cur st' = MMain /\ exists x, s = 34 :: x /\ n = 1%nat)
-     \/ (ty0 = TokenQuotedLit /\ st' = st))).
-  { intros d ty Hty Hm' Ha'. apply m_tmpl_open_inv in Hm'. destruct Hm' as (-> & Hn & x & ->).
-    unfold a_begin_tmpl in Ha'. inversion Ha'; subst e st'. exists ty. split; [reflexivity|].
-    split; [destruct Hty as [-> | ->]; reflexivity|]. split.
-    { apply okmodes_fcall; [left; reflexivity|].
-      destruct (set_top_sol _ _) eqn:Es.
-      - unfold set_top_sol in Es. cbn in Es. destruct (l_hdocs st); [discriminate|]. inversion Es; subst.
-        eapply okmodes_same; [| |exact Ho]; reflexivity.
-      - eapply okmodes_same; [| |exact Ho]; reflexivity. }
-    left. split; [exact Hty|]. split; [reflexivity|]. split.
-    - replace (Nat.max 1 n) with n by lia. rewrite firstn_length. simpl. lia.
-    - eauto. }
-  destruct Hin as [<-|Hin]; [eapply Hopen; [left; reflexivity|exact Hm|exact Ha]|].
-  destruct Hin as [<-|Hin]; [eapply Hopen; [right; reflexivity|exact Hm|exact Ha]|].
-  clear Hopen.
+  destruct Hin as [<-|Hin]; [exact (begin_tmpl_step st 36 _ s lk n e st' Hi (or_introl Hc) (or_introl eq_refl) Hm Ha)|].
+  destruct Hin as [<-|Hin]; [exact (begin_tmpl_step st 37 _ s lk n e st' Hi (or_introl Hc) (or_intror eq_refl) Hm Ha)|].
   destruct Hin as [<-|Hin].
   { cbn [r_act R] in Ha. unfold a_end_string in Ha. destruct (fret st) as [st1|] eqn:Ef; [|discriminate].
-    inversion Ha; subst e st1. exists TokenCQuote. split; [reflexivity|]. split; [reflexivity|].
-    split; [eapply okmodes_fret; eassumption|]. right. left. split; [reflexivity|].
-    destruct (string_top_main st Hi Hc) as (l & El). unfold fret in Ef. rewrite El in Ef. inversion Ef; subst st'.
+    inversion Ha; subst e st1. split; [eapply okmodes_fret; eassumption|].
+    split; [eapply mkinv_same; [apply (fret_hdocs _ _ Ef)|exact Hmk]|].
+    right. left. split; [reflexivity|].
+    destruct (string_top_main st Hh Hc) as (l & El). unfold fret in Ef. rewrite El in Ef. inversion Ef; subst st'.
     split; [reflexivity|]. cbn [r_match R] in Hm. apply m_lit_inv in Hm. destruct Hm as (Hp & _ & ->).
     destruct s as [|c x]; [discriminate|]. apply is_prefix_hd in Hp. subst c. eauto. }
   destruct Hin as [<-|Hin].
-  { cbn [r_act R] in Ha. unfold a_tok in Ha. inversion Ha; subst e st'. exists TokenQuotedLit.
-    split; [reflexivity|]. split; [reflexivity|]. split; [exact Ho|]. right. right. auto. }
+  { cbn [r_act R] in Ha. unfold a_tok in Ha. inversion Ha; subst e st'.
+    split; [exact Ho|]. split; [exact Hmk|]. right. right. left. auto. }
   destruct Hin as [<-|Hin]; [unclean_s Ha Hok|].
   destruct Hin as [<-|Hin]; [unclean_s Ha Hok|].
   destruct Hin as [<-|Hin]; [unclean_s Ha Hok|].
   destruct Hin.
 Qed.
 
-(* ---- where a run of ordinary characters ends ------------------------------------------------------ *)
+Lemma string_no_two (st : hstate) r b e st' t1 k t2 :
+  In r rules_string -> r_act r st b = Some (e, st') -> e <> ETwo t1 k t2.
+Proof.
+  intros Hin Ha He. subst e. unfold rules_string in Hin. cbn [In] in Hin.
+  repeat (destruct Hin as [<-|Hin];
+    [cbn [r_act R] in Ha; unfold a_begin_tmpl, a_end_string, a_tok in Ha; try (destruct (fret st)); discriminate Ha|]).
+  destruct Hin.
+Qed.
+
+(* ---- one step of the heredoc scanner ------------------------------------------------------------- *)
+
+Lemma heredoc_step3 (st : hstate) r s lk n e st' :
+  Inv st -> l_cur st = MHeredoc -> In r rules_heredoc -> r_match r s = Some (lk, n) -> (0 < lk)%nat ->
+  r_act r st (firstn (Nat.max 1 n) s) = Some (e, st') -> emits_clean e ->
+  okmodes st' /\ mkinv st' /\ tstep st s n e st'.
+Proof.
+  intros Hi Hc Hin Hm Hlk Ha Hok. pose proof Hi as (Hh & Ho & Hmk).
+  unfold rules_heredoc in Hin; cbn [In] in Hin.
+  destruct Hin as [<-|Hin]; [exact (begin_tmpl_step st 36 _ s lk n e st' Hi (or_intror Hc) (or_introl eq_refl) Hm Ha)|].
+  destruct Hin as [<-|Hin]; [exact (begin_tmpl_step st 37 _ s lk n e st' Hi (or_intror Hc) (or_intror eq_refl) Hm Ha)|].
+  destruct Hin as [<-|Hin].
+  { cbn [r_act R r_match] in Ha, Hm.
+    destruct (a_heredoc_eol_emit _ _ _ _ Ha) as [(k & He)|He].
+    - (* the closing line *)
+      subst e. pose proof Ha as Ha0. unfold a_heredoc_eol in Ha.
+      destruct (l_hdocs st) as [|top rest] eqn:Eh; [discriminate|].
+      destruct (h_sol top && zlist_eqb (trim_space _) (h_marker top)); [|discriminate].
+      destruct (fret _) as [st1|] eqn:Ef; [|discriminate]. inversion Ha; subst st1. clear Ha.
+      assert (Ho' : okmodes st') by (eapply okmodes_fret; [exact Ef|eapply okmodes_same; [| |exact Ho]; reflexivity]).
+      assert (Hmk' : mkinv st').
+      { unfold mkinv. rewrite (fret_hdocs _ _ Ef). cbn. unfold mkinv in Hmk. rewrite Eh in Hmk. inversion Hmk; assumption. }
+      split; [exact Ho'|]. split; [exact Hmk'|].
+      right. right. right. right.
+      set (b := firstn (Nat.max 1 n) s) in *.
+      assert (Hbne : b <> []).
+      { unfold b. destruct s; [discriminate Hm|]. destruct (Nat.max 1 n) eqn:E; [lia|]. discriminate. }
+      destruct (close_not_dp st b _ _ _ _ Hmk Ha0 Hbne) as (c & b' & Eb & Hcdp).
+      assert (Hn1 : (1 <= n <= length s)%nat).
+      { destruct s as [|c0 x]; [discriminate Hm|]. unfold b in Eb. destruct (Nat.max 1 n) eqn:E; [lia|]. cbn in Eb. inversion Eb; subst c0.
+        rewrite (eol_nodp c x Hcdp) in Hm. cbv zeta in Hm.
+        pose proof (sc_le (c :: x) 0 0) as Hk.
+        pose proof (newline_len_le (skipn (spc (c :: x) 0 0) (c :: x))) as Hnl. rewrite skipn_length in Hnl.
+        set (k0 := spc (c :: x) 0 0) in *. clearbody k0.
+        destruct (newline_len _) as [|n1]; [discriminate|]. unfold same in Hm.
+        assert (En : n = (k0 + S n1)%nat) by (injection Hm as _ Hx; symmetry; exact Hx).
+        cbn [length] in *. lia. }
+      assert (Hbl : length b = n) by (unfold b; rewrite firstn_length; lia).
+      assert (Hs : s = b ++ skipn (Nat.max 1 n) s) by (unfold b; symmetry; apply firstn_skipn).
+      assert (Hlast : last b 0 = 10).
+      { rewrite Eb. rewrite Hs, Eb in Hm. apply (eol_line_last c b' _ lk n Hcdp Hm). rewrite <- Eb. exact Hbl. }
+      split; [eauto|]. split.
+      { destruct (heredoc_top_main st Hh Hc) as (l & El). unfold fret in Ef. cbn in Ef. rewrite El in Ef. inversion Ef. reflexivity. }
+      split; [apply (close_len2 st b _ _ _ _ Hmk Ha0 Hlast)|].
+      split; [eauto|].
+      intros t1 k0 t2 He. inversion He; subst t1 k0 t2.
+      (* k is the one the action computed *)
+      unfold a_heredoc_eol in Ha0. rewrite Eh in Ha0.
+      destruct (h_sol top && zlist_eqb (trim_space b) (h_marker top)); [|discriminate].
+      rewrite Ef in Ha0. injection Ha0 as Hk. cbv zeta. subst k.
+      apply (close_tok2 b Hbne Hlast).
+    - subst e. unfold a_heredoc_eol in Ha. destruct (l_hdocs st) as [|top rest] eqn:Eh; [discriminate|].
+      destruct (h_sol top && zlist_eqb (trim_space _) (h_marker top)); [destruct (fret _); discriminate|].
+      inversion Ha; subst st'. split; [eapply okmodes_same; [| |exact Ho]; reflexivity|].
+      split.
+      { unfold mkinv in *. cbn. rewrite Eh in Hmk. inversion Hmk; subst. constructor; assumption. }
+      right. right. right. left. split; reflexivity. }
+  destruct Hin as [<-|Hin].
+  { cbn [r_act R] in Ha. pose proof (a_heredoc_mid_emit _ _ _ _ Ha) as ->.
+    unfold a_heredoc_mid in Ha. destruct (set_top_sol false st) as [st1|] eqn:Es; [|discriminate].
+    inversion Ha; subst st1. destruct (set_top_sol_markers _ _ _ Es) as (E0 & E1 & E2).
+    split; [eapply okmodes_same; eassumption|]. split; [eapply mkinv_markers; eassumption|].
+    right. right. right. left. split; [reflexivity|exact E1]. }
+  destruct Hin as [<-|Hin]; [unclean_s Ha Hok|].
+  destruct Hin.
+Qed.
+
+(* ---- traces of clean sources ------------------------------------------------------------------------ *)
+
+Definition emits_clean_neof (e : emit) : Prop :=
+  forall ty, In ty (emit_types e) -> clean_ty ty = true /\ ty <> TokenEOF.
+
+(* the Newline split off the closing line of a heredoc *)
+Definition tok2_ok (p : step) : Prop :=
+  forall t1 k t2, g_emit p = ETwo t1 k t2 ->
+    skipn (length (g_b p) - k) (g_b p) = [10] \/ skipn (length (g_b p) - k) (g_b p) = [13; 10].
+
+Fixpoint gen_trace (st : hstate) (ps : list step) : Prop :=
+  Inv st /\ mode3 st /\
+  match ps with
+  | [] => True
+  | p :: r =>
+      emits_clean_neof (g_emit p) /\
+      ((g_emit p = EOne (ty_of p) /\ ty_of p <> TokenCHeredoc) \/
+       ((exists k, g_emit p = ETwo TokenCHeredoc k TokenNewline) /\ l_cur (g_nst p) = MMain /\
+        (2 <= length (g_b p))%nat /\ (exists c b', g_b p = c :: b' /\ is_dp c = false) /\ tok2_ok p)) /\
+      (if tl_ty (ty_of p) then l_cur st <> MMain else l_cur st = MMain) /\
+      ((ty_of p = TokenQuotedLit \/ ty_of p = TokenStringLit) -> l_cur (g_nst p) = l_cur st) /\
+      (l_cur (g_nst p) <> MMain -> In (ty_of p) tl_before) /\
+      gen_trace (g_nst p) r
+  end.
+
+Lemma gen_trace_inv st ps : gen_trace st ps -> Inv st /\ mode3 st.
+Proof. destruct ps; cbn [gen_trace]; tauto. Qed.
+
+Lemma gen_trace_of : forall ps st tg off,
+  trace_ok st ps tg -> Inv st ->
+  forallb (fun k => clean_ty (k_ty k)) (ttoks off ps tg) = true -> gen_trace st ps.
+Proof.
+  induction ps as [|p r IH]; intros st tg off Ht Hi Hs; cbn [gen_trace].
+  { split; [exact Hi|]. split; [apply okmodes_mode3; apply Hi|exact I]. }
+  pose proof Hi as (Hh & Ho & Hmk). pose proof (okmodes_mode3 _ Ho) as Hmode.
+  split; [exact Hi|]. split; [exact Hmode|].
+  cbn [trace_ok] in Ht. destruct Ht as (Hbl & Hgm & Hne & Hnb & (lk & Hp) & Hb & Ha & He & Htr).
+  cbn [ttoks] in Hs. rewrite forallb_app in Hs. apply andb_true_iff in Hs. destruct Hs as [Hs1 Hs2].
+  pose proof Hp as Hp2. apply pick_spec in Hp2. destruct Hp2 as [Hx|(Hin & Hm & Hlk)]; [discriminate|].
+  rewrite Hb in Ha.
+  assert (Hty : emits_clean_neof (g_emit p)).
+  { intros ty Hty. split.
+    - rewrite <- (tokens_emit_types (g_emit p) (off + zlen (g_gap p)) (g_b p)) in Hty.
+      apply in_map_iff in Hty. destruct Hty as (k & <- & Hk). rewrite forallb_forall in Hs1. apply (Hs1 k Hk).
+    - eapply (hcl_emitted_types (l_cur st)); [exact Hin|exact Hm|exact Ha|exact Hty]. }
+  assert (Hcl : emits_clean (g_emit p)) by (intros ty Hx; apply Hty; exact Hx).
+  split; [exact Hty|].
+  destruct (hcl_step_ok st _ _ _ _ Hh Hin Hm Hlk) as (e0 & st0 & Ha0 & Hh').
+  rewrite Ha in Ha0. inversion Ha0; subst e0 st0. clear Ha0.
+  destruct Hmode as [Hc|[Hc|Hc]].
+  - (* main *)
+    rewrite Hc in Hin. change (hcl_rules MMain) with rules_main in Hin.
+    destruct (main_step3 st _ _ _ _ _ _ Hi Hc Hin Hm Ha He) as (ty & Ee & Htl & Ho' & Hmk' & Hq).
+    unfold ty_of. rewrite Ee in *. rewrite Htl.
+    split. { left. split; [reflexivity|]. intro Hx. rewrite Hx in Htl. discriminate. }
+    split; [exact Hc|]. split.
+    { intros [Hx|Hx]; rewrite Hx in Htl; discriminate. }
+    split; [exact Hq|].
+    eapply IH; [exact Htr|split; [exact Hh'|split; assumption]|exact Hs2].
+  - (* string *)
+    rewrite Hc in Hin. change (hcl_rules MString) with rules_string in Hin.
+    destruct (string_step3 st _ _ _ _ _ _ Hi Hc Hin Hm Ha Hcl) as (Ho' & Hmk' & Hcase).
+    assert (Hnext : gen_trace (g_nst p) r) by (eapply IH; [exact Htr|split; [exact Hh'|split; assumption]|exact Hs2]).
+    destruct Hcase as [((ty & Ee & Hty2) & Hm1 & _)|[(Ee & Hm1 & _)|[(Ee & Hst)|[(Ee & Hst)|((k & Ee) & _)]]]].
+    + unfold ty_of. rewrite Ee. split; [left; split; [reflexivity|destruct Hty2 as [-> | ->]; discriminate]|].
+      replace (tl_ty ty) with true by (destruct Hty2 as [-> | ->]; reflexivity).
+      split; [rewrite Hc; discriminate|]. split; [intros [Hx|Hx]; destruct Hty2 as [-> | ->]; discriminate|].
+      split; [intro Hx; contradiction|exact Hnext].
+    + unfold ty_of. rewrite Ee. cbn [tl_ty Z.eqb orb]. split; [left; split; [reflexivity|discriminate]|].
+      split; [rewrite Hc; discriminate|]. split; [intros [Hx|Hx]; discriminate|].
+      split; [intro Hx; contradiction|exact Hnext].
+    + unfold ty_of. rewrite Ee. split; [left; split; [reflexivity|discriminate]|].
+      split; [cbn; rewrite Hc; discriminate|]. split; [intros _; rewrite Hst; reflexivity|].
+      split; [intros _; unfold tl_before; cbn [In]; tauto|exact Hnext].
+    + (* a StringLit cannot come from the string scanner, but the shape is harmless *)
+      unfold ty_of. rewrite Ee. split; [left; split; [reflexivity|discriminate]|].
+      split; [cbn; rewrite Hc; discriminate|]. split; [intros _; exact Hst|].
+      split; [intros _; unfold tl_before; cbn [In]; tauto|exact Hnext].
+    + exfalso. exact (string_no_two st _ _ _ _ _ _ _ Hin Ha Ee).
+  - (* heredoc *)
+    rewrite Hc in Hin. change (hcl_rules MHeredoc) with rules_heredoc in Hin.
+    destruct (heredoc_step3 st _ _ _ _ _ _ Hi Hc Hin Hm Hlk Ha Hcl) as (Ho' & Hmk' & Hcase).
+    assert (Hnext : gen_trace (g_nst p) r) by (eapply IH; [exact Htr|split; [exact Hh'|split; assumption]|exact Hs2]).
+    unfold tstep in Hcase. rewrite <- Hb in Hcase.
+    destruct Hcase as [((ty & Ee & Hty2) & Hm1 & _)|[(Ee & Hm1 & _)|[(Ee & Hst)|[(Ee & Hst)|((k & Ee) & Hm1 & Hl2 & Hdp & Ht2)]]]].
+    + unfold ty_of. rewrite Ee. split; [left; split; [reflexivity|destruct Hty2 as [-> | ->]; discriminate]|].
+      replace (tl_ty ty) with true by (destruct Hty2 as [-> | ->]; reflexivity).
+      split; [rewrite Hc; discriminate|]. split; [intros [Hx|Hx]; destruct Hty2 as [-> | ->]; discriminate|].
+      split; [intro Hx; contradiction|exact Hnext].
+    + unfold ty_of. rewrite Ee. cbn [tl_ty Z.eqb orb]. split; [left; split; [reflexivity|discriminate]|].
+      split; [rewrite Hc; discriminate|]. split; [intros [Hx|Hx]; discriminate|].
+      split; [intro Hx; contradiction|exact Hnext].
+    + unfold ty_of. rewrite Ee. split; [left; split; [reflexivity|discriminate]|].
+      split; [cbn; rewrite Hc; discriminate|]. split; [intros _; rewrite Hst; reflexivity|].
+      split; [intros _; unfold tl_before; cbn [In]; tauto|exact Hnext].
+    + unfold ty_of. rewrite Ee. split; [left; split; [reflexivity|discriminate]|].
+      split; [cbn; rewrite Hc; discriminate|]. split; [intros _; exact Hst|].
+      split; [intros _; unfold tl_before; cbn [In]; tauto|exact Hnext].
+    + unfold ty_of. rewrite Ee. split.
+      { right. split; [eauto|]. split; [exact Hm1|]. split; [exact Hl2|]. split; [exact Hdp|].
+        unfold tok2_ok. intros t1 k0 t2 He'.
+        assert (Hx : g_emit p = ETwo t1 k0 t2) by (first [exact He' | rewrite Ee; exact He']).
+        specialize (Ht2 t1 k0 t2 Hx). cbv zeta in Ht2. exact Ht2. }
+      split; [cbn; rewrite Hc; discriminate|]. split; [intros [Hx|Hx]; discriminate|].
+      split; [intro Hx; contradiction|exact Hnext].
+Qed.
+
+(* ---- the layout condition ------------------------------------------------------------------------- *)
+
+(* "${" / "%{" written without "~": the next byte must not be "~" *)
+
+(* tokens of the template scanners carry no space before them, nor does the Newline that
+   ends the closing line of a heredoc; after every other token the following bytes must not
+   continue it (tail_okb) *)
+
+Lemma layout_cons x f : layout_okb (x :: f) = true ->
+  0 <= sp x /\
+  (tl_ty (ty x) = true -> sp x = 0 /\ (is_tmpl_open (ty x) = true -> opener_okb (bytes x) (write f) = true)) /\
+  (tl_ty (ty x) = false -> tail_okb (bytes x) (write f) = true) /\
+  (ty x = TokenCHeredoc -> match f with y :: _ => sp y = 0 | [] => True end) /\
+  layout_okb f = true.
+Proof.
+  cbn [layout_okb]. intro H. apply andb_true_iff in H. destruct H as [H H4].
+  apply andb_true_iff in H. destruct H as [H H3].
+  apply andb_true_iff in H. destruct H as [H1 H2]. apply Z.leb_le in H1.
+  split; [exact H1|]. split; [|split; [|split; [|exact H4]]].
+  - intro Ht. rewrite Ht in H2. apply andb_true_iff in H2. destruct H2 as [Ha Hb]. apply Z.eqb_eq in Ha.
+    split; [exact Ha|]. intro Ho. rewrite Ho in Hb. exact Hb.
+  - intro Ht. rewrite Ht in H2. exact H2.
+  - intro Ht. rewrite Ht, Z.eqb_refl in H3. cbn in H3. destruct f as [|y f']; [exact I|]. apply Z.eqb_eq. exact H3.
+Qed.
+
+(* the closing line of a heredoc and its newline, seen as one token (as the scanner matches them) *)
+Fixpoint merge2 (body : list tok) : list tok :=
+  match body with
+  | [] => []
+  | x :: r =>
+      match r with
+      | y :: f => if ty x =? TokenCHeredoc then mkTok (ty x) (bytes x ++ bytes y) (gcols x) (sp x) :: merge2 f
+                  else x :: merge2 r
+      | [] => [x]
+      end
+  end.
+
+Lemma merge2_cons2 x y f :
+  merge2 (x :: y :: f) =
+  if ty x =? TokenCHeredoc then mkTok (ty x) (bytes x ++ bytes y) (gcols x) (sp x) :: merge2 f
+  else x :: merge2 (y :: f).
+Proof. reflexivity. Qed.
+
+Section Tails.
+  Variable e : tok.
+  Hypothesis He : bytes e = [].
+  Hypothesis Hspe : 0 <= sp e.
+
+  (* the layout facts, per scanner step *)
+  Fixpoint LO (mb : list tok) : Prop :=
+    match mb with
+    | [] => True
+    | x :: f =>
+        0 <= sp x /\
+        (tl_ty (ty x) = true -> sp x = 0 /\ (is_tmpl_open (ty x) = true -> opener_okb (bytes x) (write (f ++ [e])) = true)) /\
+        (tl_ty (ty x) = false -> tail_okb (bytes x) (write (f ++ [e])) = true) /\
+        LO f
+    end.
+
+  Lemma write_merge2 : forall n body, (length body <= n)%nat -> layout_okb (body ++ [e]) = true ->
+    write (merge2 body ++ [e]) = write (body ++ [e]).
+  Proof.
+    induction n as [|n IH]; intros body Hn Hl; [destruct body; [reflexivity|simpl in Hn; lia]|].
+    destruct body as [|x [|y f]]; [reflexivity|reflexivity|].
+    rewrite merge2_cons2. cbn [app] in Hl. destruct (layout_cons _ _ Hl) as (_ & _ & _ & Hch & Hl').
+    destruct (ty x =? TokenCHeredoc) eqn:E.
+    - apply Z.eqb_eq in E. specialize (Hch E). cbn in Hch.
+      destruct (layout_cons _ _ Hl') as (_ & _ & _ & _ & Hl'').
+      cbn [app]. rewrite !write_cons. cbn [sp bytes]. rewrite Hch. change (spaces 0) with (@nil Z). cbn [app].
+      rewrite <- app_assoc. f_equal. f_equal. f_equal. apply IH; [simpl in Hn; lia|exact Hl''].
+    - cbn [app]. rewrite (write_cons x), (write_cons x). f_equal. f_equal.
+      change (y :: f ++ [e]) with ((y :: f) ++ [e]). apply IH; [simpl in *; lia|exact Hl'].
+  Qed.
+
+  Lemma layout_LO : forall n body, (length body <= n)%nat -> layout_okb (body ++ [e]) = true -> LO (merge2 body).
+  Proof.
+    induction n as [|n IH]; intros body Hn Hl; [destruct body; [exact I|simpl in Hn; lia]|].
+    destruct body as [|x [|y f]]; [exact I| |].
+    - cbn [merge2 LO]. cbn [app] in Hl. destruct (layout_cons _ _ Hl) as (H1 & H2 & H3 & _ & _). auto.
+    - rewrite merge2_cons2. cbn [app] in Hl. destruct (layout_cons _ _ Hl) as (H1 & H2 & H3 & Hch & Hl').
+      destruct (ty x =? TokenCHeredoc) eqn:E.
+      + apply Z.eqb_eq in E. destruct (layout_cons _ _ Hl') as (_ & _ & _ & _ & Hl'').
+        cbn [LO ty sp bytes]. split; [exact H1|]. split.
+        { intro Ht. destruct (H2 Ht) as [Hs _]. split; [exact Hs|]. intro Ho. rewrite E in Ho. discriminate. }
+        split; [intro Ht; rewrite E in Ht; discriminate|].
+        apply IH; [simpl in Hn; lia|exact Hl''].
+      + cbn [LO]. change (y :: f ++ [e]) with ((y :: f) ++ [e]) in *.
+        rewrite (write_merge2 (length (y :: f)) (y :: f) ltac:(lia) Hl').
+        split; [exact H1|]. split; [exact H2|]. split; [exact H3|].
+        apply IH; [simpl in *; lia|exact Hl'].
+  Qed.
+
+  Definition aligned (ps : list step) (mb : list tok) : Prop :=
+    map bytes mb = map g_b ps /\ map ty mb = map ty_of ps.
+
+  Lemma aligned_cons p r x f : aligned (p :: r) (x :: f) ->
+    bytes x = g_b p /\ ty x = ty_of p /\ aligned r f.
+  Proof. intros [H1 H2]. cbn [map] in *. inversion H1. inversion H2. repeat split; assumption. Qed.
+
+  Lemma aligned_nil_l body : aligned [] body -> body = [].
+  Proof. intros [H _]. destruct body; [reflexivity|discriminate]. Qed.
+
+  Lemma aligned_nil_r ps : aligned ps [] -> ps = [].
+  Proof. intros [H _]. destruct ps; [reflexivity|discriminate]. Qed.
+
+  (* inside a template: both tails are empty or start with the same byte *)
+  Lemma tmpl_tail_hd st ps tg body :
+    trace_ok st ps tg -> gen_trace st ps -> l_cur st <> MMain -> aligned ps body ->
+    (tg = [] -> sp e = 0) -> LO body ->
+    (tbytes ps tg = [] /\ tbytes (regap ps (gaps_of body)) (spaces (sp e)) = []) \/
+    (exists c y y', tbytes ps tg = c :: y /\ tbytes (regap ps (gaps_of body)) (spaces (sp e)) = c :: y').
+  Proof.
+    intros Ht Hg Hc Hal Htg Hl. destruct ps as [|p r].
+    - left. cbn [trace_ok] in Ht. destruct Ht as [_ Hm].
+      assert (tg = []). { destruct tg; [reflexivity|]. specialize (Hm ltac:(discriminate)). contradiction. }
+      subst tg. rewrite (aligned_nil_l _ Hal). cbn. rewrite (Htg eq_refl). split; reflexivity.
+    - right. destruct body as [|x f]; [apply aligned_nil_r in Hal; discriminate|].
+      destruct (aligned_cons _ _ _ _ Hal) as (Hbx & Htx & Hal').
+      cbn [trace_ok] in Ht. destruct Ht as (Hbl & Hgm & Hne & _).
+      cbn [gen_trace] in Hg. destruct Hg as (_ & _ & _ & _ & Htl & _).
+      assert (Hgap : g_gap p = []). { destruct (g_gap p); [reflexivity|]. specialize (Hgm ltac:(discriminate)). contradiction. }
+      destruct (tl_ty (ty_of p)) eqn:Et; [|contradiction].
+      cbn [LO] in Hl. destruct Hl as (_ & Hs0 & _). rewrite Htx in Hs0. destruct (Hs0 Et) as [Hs0' _].
+      cbn [tbytes gaps_of map regap set_gap g_gap g_b]. rewrite Hgap, Hs0'. change (spaces 0) with (@nil Z). cbn [app].
+      destruct (g_b p) as [|c y]; [contradiction|]. cbn [app]. eauto.
+  Qed.
+End Tails.
+
+Lemma heredoc_no_cquote (st : hstate) r b e st' :
+  In r rules_heredoc -> r_act r st b = Some (e, st') -> e <> EOne TokenCQuote.
+Proof.
+  intros Hin Ha He. subst e. unfold rules_heredoc in Hin. cbn [In] in Hin.
+  destruct Hin as [<-|Hin]; [cbn [r_act R] in Ha; unfold a_begin_tmpl in Ha; discriminate Ha|].
+  destruct Hin as [<-|Hin]; [cbn [r_act R] in Ha; unfold a_begin_tmpl in Ha; discriminate Ha|].
+  destruct Hin as [<-|Hin]; [cbn [r_act R] in Ha; destruct (a_heredoc_eol_emit _ _ _ _ Ha) as [(k & H)|H]; discriminate H|].
+  destruct Hin as [<-|Hin]; [cbn [r_act R] in Ha; pose proof (a_heredoc_mid_emit _ _ _ _ Ha) as H; discriminate H|].
+  destruct Hin as [<-|Hin]; [cbn [r_act R] in Ha; unfold a_tok in Ha; discriminate Ha|].
+  destruct Hin.
+Qed.
 
 (* a clean token of the string scanner in front of which such a run ended starts with
    the closing quote, '$' or '%' *)
@@ -1946,202 +3035,134 @@ Proof.
   destruct Hin.
 Qed.
 
-(* ---- traces of sources without heredocs --------------------------------------------------------- *)
 
-Fixpoint gen_trace (st : hstate) (ps : list step) : Prop :=
-  Inv st /\ (l_cur st = MMain \/ l_cur st = MString) /\
-  match ps with
-  | [] => True
-  | p :: r => g_emit p = EOne (ty_of p) /\ nohd_ty (ty_of p) = true /\ ty_of p <> TokenEOF /\
-              (if tl_ty (ty_of p) then l_cur st = MString else l_cur st = MMain) /\
-              (l_cur st = MString -> ty_of p = TokenQuotedLit -> g_nst p = st) /\
-              (l_cur (g_nst p) = MString ->
-                 ty_of p = TokenOQuote \/ ty_of p = TokenTemplateSeqEnd \/ ty_of p = TokenQuotedLit) /\
-              gen_trace (g_nst p) r
-  end.
-
-Lemma gen_trace_inv st ps : gen_trace st ps -> Inv st /\ (l_cur st = MMain \/ l_cur st = MString).
-Proof. destruct ps; cbn [gen_trace]; tauto. Qed.
-
-Lemma gen_trace_of : forall ps st tg off,
-  trace_ok st ps tg -> Inv st -> (l_cur st = MMain \/ l_cur st = MString) ->
-  forallb (fun k => nohd_ty (k_ty k)) (ttoks off ps tg) = true -> gen_trace st ps.
+(* the same for the heredoc scanner: the next clean token starts with '$', '%' or a newline *)
+Lemma heredoc_next_hard (st : hstate) r s lk n e st' :
+  In r rules_heredoc -> r_match r s = Some (lk, n) -> (0 < lk)%nat ->
+  r_act r st (firstn (Nat.max 1 n) s) = Some (e, st') -> emits_clean e ->
+  spc s 0 0 = O -> s = [] \/ exists c y, s = c :: y /\ plain_ok c = false.
 Proof.
-  induction ps as [|p r IH]; intros st tg off Ht Hi Hmode Hs; cbn [gen_trace]; [tauto|].
-  split; [exact Hi|]. split; [exact Hmode|].
-  cbn [trace_ok] in Ht. destruct Ht as (Hbl & Hgm & Hne & Hnb & (lk & Hp) & Hb & Ha & He & Htr).
-  cbn [ttoks] in Hs. rewrite forallb_app in Hs. apply andb_true_iff in Hs. destruct Hs as [Hs1 Hs2].
-  pose proof Hp as Hp2. apply pick_spec in Hp2. destruct Hp2 as [Hx|(Hin & Hm & Hlk)]; [discriminate|].
-  assert (Hty : forall ty, In ty (emit_types (g_emit p)) -> nohd_ty ty = true).
-  { intros ty Hty. rewrite <- (tokens_emit_types (g_emit p) (off + zlen (g_gap p)) (g_b p)) in Hty.
-    apply in_map_iff in Hty. destruct Hty as (k & <- & Hk).
-    rewrite forallb_forall in Hs1. apply (Hs1 k Hk). }
-  destruct Hi as [Hh Ho]. rewrite Hb in Ha.
-  destruct (hcl_step_ok st _ _ _ _ Hh Hin Hm Hlk) as (e0 & st0 & Ha0 & Hh').
-  rewrite Ha in Ha0. inversion Ha0; subst e0 st0. clear Ha0.
-  assert (Hneof : forall ty, g_emit p = EOne ty -> ty <> TokenEOF).
-  { intros ty Ee. eapply (hcl_emitted_types (l_cur st)); [exact Hin|exact Hm|exact Ha|rewrite Ee; left; reflexivity]. }
-  destruct Hmode as [Hc|Hc].
-  - rewrite Hc in Hin. change (hcl_rules MMain) with rules_main in Hin.
-    destruct (main_step2 st _ _ _ _ _ _ Ho Hc Hin Hm Ha He Hty) as (ty & Ee & Htl & Ho' & Hm' & Hq).
-    unfold ty_of. rewrite Ee in *. rewrite Htl.
-    split; [reflexivity|]. split; [apply Hty; left; reflexivity|]. split; [apply Hneof; reflexivity|].
-    split; [exact Hc|]. split; [intro; congruence|]. split; [intros Hx; destruct (Hq Hx) as [Hy|Hy]; auto|].
-    eapply IH; [exact Htr|split; assumption|exact Hm'|exact Hs2].
-  - rewrite Hc in Hin. change (hcl_rules MString) with rules_string in Hin.
-    assert (Hcl : emits_clean (g_emit p)).
-    { intros ty Hx. apply Hty in Hx. apply nohd_ty_inv in Hx. tauto. }
-    destruct (string_step2 st _ _ _ _ _ _ (conj Hh Ho) Hc Hin Hm Ha Hcl) as (ty & Ee & Htl & Ho' & Hcase).
-    unfold ty_of. rewrite Ee in *. rewrite Htl.
-    split; [reflexivity|]. split; [apply Hty; left; reflexivity|]. split; [apply Hneof; reflexivity|].
-    split; [exact Hc|]. split.
-    { intros _ Hq. destruct Hcase as [([Hx|Hx] & _)|[(Hx & _)|(_ & Hx)]]; try (rewrite Hx in Hq; discriminate). exact Hx. }
-    split.
-    { intro Hx. destruct Hcase as [(_ & Hy & _)|[(_ & Hy & _)|(Hy & _)]]; [congruence|congruence|auto]. }
-    eapply IH; [exact Htr|split; assumption| |exact Hs2].
-    destruct Hcase as [(_ & Hx & _)|[(_ & Hx & _)|(_ & Hx)]]; [left; exact Hx|left; exact Hx|right; rewrite Hx; exact Hc].
+  intros Hin Hm Hlk Ha Hok Hs.
+  assert (Hdp : forall d x, s = d :: x -> is_dp d = true -> s = [] \/ exists c y, s = c :: y /\ plain_ok c = false).
+  { intros d x -> Hd. right. exists d, x. split; [reflexivity|]. unfold plain_ok. rewrite Hd. apply andb_false_r. }
+  unfold rules_heredoc in Hin; cbn [In] in Hin.
+  destruct Hin as [<-|Hin].
+  { cbn [r_match R] in Hm. apply m_tmpl_open_inv in Hm. destruct Hm as (_ & _ & x & ->). eapply Hdp; reflexivity. }
+  destruct Hin as [<-|Hin].
+  { cbn [r_match R] in Hm. apply m_tmpl_open_inv in Hm. destruct Hm as (_ & _ & x & ->). eapply Hdp; reflexivity. }
+  destruct s as [|c x]; [left; reflexivity|].
+  destruct (is_dp c) eqn:Edp; [eapply Hdp; [reflexivity|exact Edp]|].
+  destruct Hin as [<-|Hin].
+  { cbn [r_match R] in Hm. rewrite (eol_nodp c x Edp) in Hm. cbv zeta in Hm. rewrite Hs in Hm. cbn [skipn] in Hm.
+    destruct (newline_len (c :: x)) eqn:En; [discriminate|].
+    destruct (newline_len_hd (c :: x) ltac:(rewrite En; discriminate)) as (c0 & y & Ey & Hc0). inversion Ey; subst.
+    right. eauto. }
+  destruct Hin as [<-|Hin].
+  { cbn [r_match R] in Hm. rewrite (mid_nodp c x Edp), Hs in Hm. discriminate. }
+  destruct Hin as [<-|Hin]; [unclean_s Ha Hok|].
+  destruct Hin.
 Qed.
 
-(* ---- the layout condition, with templates ------------------------------------------------------- *)
-
-(* "${" / "%{" written without "~": the next byte must not be "~" *)
-
-(* tokens of the string scanner carry no space before them; after every other
-   token the following bytes must not continue it (tail_okb) *)
-
-Lemma layout_cons x f : layout_okb (x :: f) = true ->
-  0 <= sp x /\
-  (tl_ty (ty x) = true -> sp x = 0 /\ (is_tmpl_open (ty x) = true -> opener_okb (bytes x) (write f) = true)) /\
-  (tl_ty (ty x) = false -> tail_okb (bytes x) (write f) = true) /\
-  layout_okb f = true.
-Proof.
-  cbn [layout_okb]. intro H. apply andb_true_iff in H. destruct H as [H H3].
-  apply andb_true_iff in H. destruct H as [H1 H2]. apply Z.leb_le in H1.
-  split; [exact H1|]. split; [|split; [|exact H3]].
-  - intro Ht. rewrite Ht in H2. apply andb_true_iff in H2. destruct H2 as [Ha Hb]. apply Z.eqb_eq in Ha.
-    split; [exact Ha|]. intro Ho. rewrite Ho in Hb. exact Hb.
-  - intro Ht. rewrite Ht in H2. exact H2.
-Qed.
-
-(* the rest of the input after a token of the string scanner, old and new *)
-Section Tails.
+Section Tails2.
   Variable e : tok.
   Hypothesis He : bytes e = [].
   Hypothesis Hspe : 0 <= sp e.
 
-  Definition aligned (ps : list step) (body : list tok) : Prop :=
-    map bytes body = map g_b ps /\ map ty body = map ty_of ps.
-
-  Lemma aligned_cons p r x f : aligned (p :: r) (x :: f) ->
-    bytes x = g_b p /\ ty x = ty_of p /\ aligned r f.
-  Proof. intros [H1 H2]. cbn [map] in *. inversion H1. inversion H2. repeat split; assumption. Qed.
-
-  Lemma aligned_nil_l body : aligned [] body -> body = [].
-  Proof. intros [H _]. destruct body; [reflexivity|discriminate]. Qed.
-
-  Lemma aligned_nil_r ps : aligned ps [] -> ps = [].
-  Proof. intros [H _]. destruct ps; [reflexivity|discriminate]. Qed.
-
-  (* in string mode: both tails are empty or start with the same byte *)
-  Lemma str_tail_hd st ps tg body :
-    trace_ok st ps tg -> gen_trace st ps -> l_cur st = MString -> aligned ps body ->
-    (tg = [] -> sp e = 0) -> layout_okb (body ++ [e]) = true ->
-    (tbytes ps tg = [] /\ tbytes (regap ps (gaps_of body)) (spaces (sp e)) = []) \/
-    (exists c y y', tbytes ps tg = c :: y /\ tbytes (regap ps (gaps_of body)) (spaces (sp e)) = c :: y').
-  Proof.
-    intros Ht Hg Hc Hal Htg Hl. destruct ps as [|p r].
-    - left. cbn [trace_ok] in Ht. destruct Ht as [_ Hm].
-      assert (tg = []). { destruct tg; [reflexivity|]. specialize (Hm ltac:(discriminate)). congruence. }
-      subst tg. rewrite (aligned_nil_l _ Hal). cbn. rewrite (Htg eq_refl). split; reflexivity.
-    - right. destruct body as [|x f]; [apply aligned_nil_r in Hal; discriminate|].
-      destruct (aligned_cons _ _ _ _ Hal) as (Hbx & Htx & Hal').
-      cbn [trace_ok] in Ht. destruct Ht as (Hbl & Hgm & Hne & _).
-      cbn [gen_trace] in Hg. destruct Hg as (_ & _ & _ & _ & _ & Htl & _).
-      assert (Hgap : g_gap p = []). { destruct (g_gap p); [reflexivity|]. specialize (Hgm ltac:(discriminate)). congruence. }
-      destruct (tl_ty (ty_of p)) eqn:Et; [|congruence].
-      cbn [app] in Hl. destruct (layout_cons _ _ Hl) as (_ & Hs0 & _). rewrite Htx in Hs0. destruct (Hs0 Et) as [Hs0' _].
-      cbn [tbytes gaps_of map regap set_gap g_gap g_b]. rewrite Hgap, Hs0'. change (spaces 0) with (@nil Z). cbn [app].
-      destruct (g_b p) as [|c y]; [contradiction|]. cbn [app]. eauto.
-  Qed.
-
   Lemma firstn2_app (b x y : list Z) : (2 <= length b)%nat -> firstn 2 (b ++ x) = firstn 2 (b ++ y).
   Proof. destruct b as [|c1 [|c2 b]]; simpl; try lia. reflexivity. Qed.
 
-  (* the classification of a string-mode step of a trace *)
-  Lemma trace_string_step st p r tg :
-    trace_ok st (p :: r) tg -> gen_trace st (p :: r) -> l_cur st = MString ->
-    g_gap p = [] /\
-    (((ty_of p = TokenTemplateInterp \/ ty_of p = TokenTemplateControl) /\ l_cur (g_nst p) = MMain /\
-        (2 <= length (g_b p))%nat /\ exists d x, g_b p ++ tbytes r tg = d :: 123 :: x)
-     \/ (ty_of p = TokenCQuote /\ l_cur (g_nst p) = MMain /\ g_b p = [34])
-     \/ (ty_of p = TokenQuotedLit /\ g_nst p = st)).
+  (* the classification of a template-mode step of a trace *)
+  Lemma trace_tmpl_step st p r tg :
+    trace_ok st (p :: r) tg -> gen_trace st (p :: r) -> l_cur st <> MMain ->
+    g_gap p = [] /\ tstep st (g_b p ++ tbytes r tg) (g_n p) (g_emit p) (g_nst p) /\
+    exists lk, In (g_rule p) (hcl_rules (l_cur st)) /\ r_match (g_rule p) (g_b p ++ tbytes r tg) = Some (lk, g_n p) /\
+               (0 < lk)%nat /\ r_act (g_rule p) st (g_b p) = Some (g_emit p, g_nst p) /\ emits_clean (g_emit p).
   Proof.
     intros Ht Hg Hc. cbn [trace_ok] in Ht. destruct Ht as (Hbl & Hgm & Hne & Hnb & (lk & Hp) & Hb & Ha & Hen & Htr).
-    cbn [gen_trace] in Hg. destruct Hg as (Hi & _ & Ee & Hnh & _).
-    split. { destruct (g_gap p); [reflexivity|]. specialize (Hgm ltac:(discriminate)). congruence. }
+    cbn [gen_trace] in Hg. destruct Hg as (Hi & Hmode & Hcl & _).
+    split. { destruct (g_gap p); [reflexivity|]. specialize (Hgm ltac:(discriminate)). contradiction. }
     pose proof Hp as Hp2. apply pick_spec in Hp2. destruct Hp2 as [Hx|(Hin & Hm & Hlk)]; [discriminate|].
-    rewrite Hc in Hin. change (hcl_rules MString) with rules_string in Hin.
-    assert (Hcl : emits_clean (g_emit p)).
-    { rewrite Ee. intros ty [<-|[]]. apply nohd_ty_inv in Hnh. tauto. }
+    assert (Hcl' : emits_clean (g_emit p)) by (intros ty Hx; apply Hcl; exact Hx).
     pose proof Ha as Ha'. rewrite Hb in Ha'.
-    destruct (string_step2 st _ _ _ _ _ _ Hi Hc Hin Hm Ha' Hcl) as (ty & Ee' & Htl & Ho' & Hcase).
-    rewrite Ee in Ee'. inversion Ee'. subst ty. rewrite <- Hb in Hcase.
-    destruct Hcase as [(H1 & H2 & H3 & H4)|[(H1 & H2 & x & Hs & Hn)|H3]]; [left; auto| |right; right; exact H3].
-    right. left. split; [exact H1|]. split; [exact H2|]. rewrite Hb, Hs, Hn. reflexivity.
+    split; [|exists lk; auto].
+    destruct Hmode as [Hm0|[Hm0|Hm0]]; [contradiction| |].
+    - pose proof Hin as Hin'. rewrite Hm0 in Hin'. change (hcl_rules MString) with rules_string in Hin'.
+      destruct (string_step3 st _ _ _ _ _ _ Hi Hm0 Hin' Hm Ha' Hcl') as (_ & _ & Hcase). exact Hcase.
+    - pose proof Hin as Hin'. rewrite Hm0 in Hin'. change (hcl_rules MHeredoc) with rules_heredoc in Hin'.
+      destruct (heredoc_step3 st _ _ _ _ _ _ Hi Hm0 Hin' Hm Hlk Ha' Hcl') as (_ & _ & Hcase). exact Hcase.
   Qed.
 
-  Lemma str_tail_agree2 st ps tg body :
-    trace_ok st ps tg -> gen_trace st ps -> l_cur st = MString -> aligned ps body ->
-    (tg = [] -> sp e = 0) -> layout_okb (body ++ [e]) = true ->
-    agree2 (tbytes ps tg) (tbytes (regap ps (gaps_of body)) (spaces (sp e))).
+  (* two bytes of agreement, or both tails start with the closing quote *)
+  Lemma tmpl_tail_agree2 st ps tg body :
+    trace_ok st ps tg -> gen_trace st ps -> l_cur st <> MMain -> aligned ps body ->
+    (tg = [] -> sp e = 0) -> LO e body ->
+    agree2 (tbytes ps tg) (tbytes (regap ps (gaps_of body)) (spaces (sp e))) /\
+    (l_cur st = MHeredoc -> firstn 2 (tbytes ps tg) = firstn 2 (tbytes (regap ps (gaps_of body)) (spaces (sp e)))).
   Proof.
     intros Ht Hg Hc Hal Htg Hl.
     destruct ps as [|p r].
-    { destruct (str_tail_hd st [] tg body Ht Hg Hc Hal Htg Hl) as [[-> ->]|(c & y & y' & E1 & E2)]; [left; reflexivity|].
-      rewrite E1, E2. cbn [trace_ok] in Ht. destruct Ht as [_ Hm]. cbn [tbytes] in E1. subst tg.
-      specialize (Hm ltac:(discriminate)). congruence. }
+    { destruct (tmpl_tail_hd e st [] tg body Ht Hg Hc Hal Htg Hl) as [[-> ->]|(c & y & y' & E1 & E2)]; [split; [left|]; reflexivity|].
+      exfalso. cbn [trace_ok] in Ht. destruct Ht as [_ Hm]. cbn [tbytes] in E1. subst tg.
+      specialize (Hm ltac:(discriminate)). contradiction. }
     destruct body as [|x f]; [apply aligned_nil_r in Hal; discriminate|].
     destruct (aligned_cons _ _ _ _ Hal) as (Hbx & Htx & Hal').
-    destruct (trace_string_step st p r tg Ht Hg Hc) as (Hgap & Hcase).
-    pose proof Ht as Ht0. cbn [trace_ok] in Ht. destruct Ht as (_ & _ & Hne & _ & _ & _ & _ & _ & Htr).
-    pose proof Hg as Hg0. cbn [gen_trace] in Hg. destruct Hg as (_ & _ & _ & _ & _ & Htl & _ & _ & Hg').
-    destruct (tl_ty (ty_of p)) eqn:Et; [|congruence].
-    cbn [app] in Hl. destruct (layout_cons _ _ Hl) as (_ & Hs0 & _ & Hl'). rewrite Htx in Hs0. destruct (Hs0 Et) as [Hs0' _].
+    destruct (trace_tmpl_step st p r tg Ht Hg Hc) as (Hgap & Hcase & (lk0 & Hin0 & _ & _ & Ha0 & _)).
+    pose proof Ht as Ht0. cbn [trace_ok] in Ht. destruct Ht as (_ & _ & Hne & _ & _ & Hb & _ & _ & Htr).
+    pose proof Hg as Hg0. cbn [gen_trace] in Hg. destruct Hg as (_ & _ & _ & _ & Htl & Hq & _ & Hg').
+    destruct (tl_ty (ty_of p)) eqn:Et; [|contradiction].
+    cbn [LO] in Hl. destruct Hl as (_ & Hs0 & _ & Hl'). rewrite Htx in Hs0. destruct (Hs0 Et) as [Hs0' _].
     cbn [tbytes gaps_of map regap set_gap g_gap g_b]. rewrite Hgap, Hs0'. change (spaces 0) with (@nil Z). cbn [app].
     fold (gaps_of f).
-    destruct (g_b p) as [|c [|c2 b3]] eqn:Eb; [contradiction| |left; apply (firstn2_app (c :: c2 :: b3)); simpl; lia].
-    destruct Hcase as [(_ & _ & Hlen & _)|[(_ & _ & E34)|(_ & Hst)]].
+    destruct (g_b p) as [|c [|c2 b3]] eqn:Eb; [contradiction| |split; [left|intros _]; apply (firstn2_app (c :: c2 :: b3)); simpl; lia].
+    unfold tstep in Hcase. rewrite <- Hb in Hcase.
+    destruct Hcase as [(_ & _ & Hlen & _)|[(Ee & Hm1 & x0 & Hs & Hn)|[(Ee & Hst)|[(Ee & Hst)|(_ & _ & Hlen & _)]]]].
     - simpl in Hlen. lia.
-    - inversion E34; subst c. right. cbn [app]. eauto.
-    - rewrite Hst in Htr, Hg'.
-      destruct (str_tail_hd st r tg f Htr Hg' Hc Hal' Htg Hl') as [[-> ->]|(c1 & y & y' & -> & ->)]; left; reflexivity.
+    - (* the closing quote *)
+      cbn [app] in Hs. inversion Hs; subst c. split; [right; cbn [app]; eauto|].
+      intro Hh. exfalso. rewrite Hh in Hin0. change (hcl_rules MHeredoc) with rules_heredoc in Hin0.
+      exact (heredoc_no_cquote st _ _ _ _ Hin0 Ha0 Ee).
+    - assert (Hmode : l_cur (g_nst p) <> MMain) by (rewrite Hst; exact Hc).
+      rewrite Hst in Htr, Hg'.
+      destruct (tmpl_tail_hd e st r tg f Htr Hg' Hc Hal' Htg Hl') as [[-> ->]|(c1 & y & y' & -> & ->)]; split; try left; reflexivity.
+    - assert (Hmode : l_cur (g_nst p) <> MMain) by (rewrite Hst; exact Hc).
+      destruct (tmpl_tail_hd e (g_nst p) r tg f Htr Hg' Hmode Hal' Htg Hl') as [[-> ->]|(c1 & y & y' & -> & ->)]; split; try left; reflexivity.
+    - simpl in Hlen. lia.
   Qed.
+End Tails2.
 
-  (* after a literal the scanner is still in string mode; if a run of ordinary
-     characters ended there, the next token starts with a quote, '$' or '%' *)
-  Lemma str_tail_hard st ps tg :
-    trace_ok st ps tg -> gen_trace st ps -> l_cur st = MString ->
-    span_quoted (tbytes ps tg) 0 0 = O -> hard_or_nil (tbytes ps tg).
+Section Regap.
+  Variable e : tok.
+  Hypothesis He : bytes e = [].
+  Hypothesis Hspe : 0 <= sp e.
+
+  (* after a literal the scanner is still inside the template; where a run of ordinary
+     characters ended the next token starts with a byte that ends such a run *)
+  Lemma tmpl_tail_hard st ps tg :
+    trace_ok st ps tg -> gen_trace st ps ->
+    (l_cur st = MString -> span_quoted (tbytes ps tg) 0 0 = O -> hard_or_nil (tbytes ps tg)) /\
+    (l_cur st = MHeredoc -> spc (tbytes ps tg) 0 0 = O ->
+       tbytes ps tg = [] \/ exists c y, tbytes ps tg = c :: y /\ plain_ok c = false).
   Proof.
-    intros Ht Hg Hc Hs. destruct ps as [|p r].
-    { cbn [trace_ok] in Ht. destruct Ht as [_ Hm]. cbn [tbytes] in *.
-      destruct tg; [left; reflexivity|]. specialize (Hm ltac:(discriminate)). congruence. }
-    destruct (trace_string_step st p r tg Ht Hg Hc) as (Hgap & _).
-    cbn [trace_ok] in Ht. destruct Ht as (Hbl & Hgm & Hne & Hnb & (lk & Hp) & Hb & Ha & Hen & Htr).
-    cbn [gen_trace] in Hg. destruct Hg as (Hi & _ & Ee & Hnh & _).
-    cbn [tbytes] in *. rewrite Hgap in *. cbn [app] in *.
-    pose proof Hp as Hp2. apply pick_spec in Hp2. destruct Hp2 as [Hx|(Hin & Hm & Hlk)]; [discriminate|].
-    rewrite Hc in Hin. change (hcl_rules MString) with rules_string in Hin.
-    assert (Hcl : emits_clean (g_emit p)).
-    { rewrite Ee. intros ty [<-|[]]. apply nohd_ty_inv in Hnh. tauto. }
-    rewrite Hb in Ha. eapply string_next_hard; eassumption.
+    intros Ht Hg.
+    destruct ps as [|p r].
+    { cbn [trace_ok] in Ht. destruct Ht as [_ Hm]. cbn [tbytes].
+      split; intros Hc _; (destruct tg; [left; reflexivity|]; specialize (Hm ltac:(discriminate)); congruence). }
+    split; intros Hc Hs.
+    - destruct (trace_tmpl_step st p r tg Ht Hg ltac:(rewrite Hc; discriminate)) as (Hgap & _ & (lk & Hin & Hm & Hlk & Ha & Hcl)).
+      cbn [trace_ok] in Ht. destruct Ht as (_ & _ & _ & _ & _ & Hb & _).
+      cbn [tbytes] in *. rewrite Hgap in *. cbn [app] in *.
+      rewrite Hc in Hin. change (hcl_rules MString) with rules_string in Hin. rewrite Hb in Ha.
+      eapply string_next_hard; eassumption.
+    - destruct (trace_tmpl_step st p r tg Ht Hg ltac:(rewrite Hc; discriminate)) as (Hgap & _ & (lk & Hin & Hm & Hlk & Ha & Hcl)).
+      cbn [trace_ok] in Ht. destruct Ht as (_ & _ & _ & _ & _ & Hb & _).
+      cbn [tbytes] in *. rewrite Hgap in *. cbn [app] in *.
+      rewrite Hc in Hin. change (hcl_rules MHeredoc) with rules_heredoc in Hin. rewrite Hb in Ha.
+      eapply heredoc_next_hard; eassumption.
   Qed.
-
-  (* ---- the new gaps satisfy regap_cond ------------------------------------------------------------ *)
 
   Lemma regap_cond_gen : forall ps st tg body,
     trace_ok st ps tg -> gen_trace st ps -> aligned ps body ->
-    (tg = [] -> sp e = 0) -> layout_okb (body ++ [e]) = true ->
+    (tg = [] -> sp e = 0) -> LO e body ->
     regap_cond st ps tg (gaps_of body) (spaces (sp e)).
   Proof.
     induction ps as [|p r IH]; intros st tg body Ht Hg Hal Htg Hl.
@@ -2152,10 +3173,11 @@ Section Tails.
       destruct (aligned_cons _ _ _ _ Hal) as (Hbx & Htx & Hal').
       pose proof Ht as Ht0. pose proof Hg as Hg0.
       cbn [trace_ok] in Ht. destruct Ht as (Hbl & Hgm & Hne & Hnb & (lk & Hp) & Hbf & Ha & Hen & Htr).
-      cbn [gen_trace] in Hg. destruct Hg as (Hi & Hmode & Ee & Hnh & Heof & Htl & Hql & _ & Hg').
-      cbn [app] in Hl. destruct (layout_cons _ _ Hl) as (Hsx & Hl1 & Hl2 & Hl').
+      cbn [gen_trace] in Hg. destruct Hg as (Hi & Hmode & Hcl & Hshape & Htl & Hq & _ & Hg').
+      cbn [LO] in Hl. destruct Hl as (Hsx & Hl1 & Hl2 & Hl').
       rewrite Htx in Hl1, Hl2.
       cbn [gaps_of map regap_cond]. fold (gaps_of f).
+      assert (Hcl' : emits_clean (g_emit p)) by (intros ty Hx; apply Hcl; exact Hx).
       assert (Hw : tbytes (regap r (gaps_of f)) (spaces (sp e)) = write (f ++ [e])).
       { symmetry. apply write_regap; [exact He|]. destruct Hal' as [H1 _]. exact H1. }
       assert (Hnil : tbytes r tg = [] -> tbytes (regap r (gaps_of f)) (spaces (sp e)) = []).
@@ -2164,124 +3186,218 @@ Section Tails.
         - exfalso. cbn [trace_ok] in Htr. destruct Htr as (_ & _ & Hne' & _).
           exact (tbytes_nonempty p' r' tg Hne' E). }
       destruct (tl_ty (ty_of p)) eqn:Et.
-      + (* a token of the string scanner: no gap *)
+      + (* a token of a template scanner: no gap *)
         destruct (Hl1 eq_refl) as [Hs0 Hop]. rewrite Hs0. change (spaces 0) with (@nil Z).
-        split; [reflexivity|]. split; [intro Hx; contradiction|]. split; [exact Hnil|]. split.
-        * exists lk. rewrite Htl in Hp |- *. change (hcl_rules MString) with rules_string in *.
+        split; [reflexivity|]. split; [intro Hx; contradiction|]. split; [exact Hnil|]. split; [|apply IH; auto].
+        assert (Hopen : (g_emit p = EOne TokenTemplateInterp \/ g_emit p = EOne TokenTemplateControl) ->
+                  forall d, g_b p = [d; 123] -> starts_with 126 (tbytes (regap r (gaps_of f)) (spaces (sp e))) = false).
+        { intros Hoe d Eb. rewrite Hw.
+          assert (Hio : is_tmpl_open (ty_of p) = true).
+          { unfold ty_of. destruct Hoe as [Hoe|Hoe]; rewrite Hoe; reflexivity. }
+          specialize (Hop Hio). rewrite Hbx, Eb in Hop. cbn in Hop.
+          apply negb_true_iff in Hop. exact Hop. }
+        assert (Hstay : forall ty, g_emit p = EOne ty -> ty = TokenQuotedLit \/ ty = TokenStringLit ->
+                  l_cur (g_nst p) = l_cur st).
+        { intros ty Ee Hty. apply Hq. unfold ty_of. rewrite Ee. exact Hty. }
+        exists lk. destruct Hmode as [Hm0|[Hm0|Hm0]]; [contradiction| |].
+        * (* string scanner *)
+          rewrite Hm0 in Hp |- *. change (hcl_rules MString) with rules_string in *.
           apply (string_pick_stable st (g_rule p) lk (g_n p) (g_b p) (tbytes r tg) (g_emit p) (g_nst p)); auto.
-          -- rewrite Ee. intros ty [<-|[]]. apply nohd_ty_inv in Hnh. tauto.
-          -- intro Eq. rewrite Ee in Eq. inversion Eq as [Eq'].
-             rewrite (Hql Htl Eq') in Htr, Hg'.
-             apply (str_tail_agree2 st r tg f Htr Hg' Htl Hal' Htg Hl').
-          -- intros Eq Hs. rewrite Ee in Eq. inversion Eq as [Eq'].
-             rewrite (Hql Htl Eq') in Htr, Hg'.
-             apply (str_tail_hard st r tg Htr Hg' Htl Hs).
-          -- intros Hoe d Eb. rewrite Hw.
-             assert (Hio : is_tmpl_open (ty_of p) = true).
-             { rewrite Ee in Hoe. destruct Hoe as [Hoe|Hoe]; inversion Hoe as [Hoe']; rewrite Hoe'; reflexivity. }
-             specialize (Hop Hio). rewrite Hbx, Eb in Hop. cbn in Hop.
-             apply negb_true_iff in Hop. exact Hop.
-        * apply IH; auto.
+          -- intro Eq. pose proof (Hstay _ Eq (or_introl eq_refl)) as Hst.
+             apply (proj1 (tmpl_tail_agree2 e (g_nst p) r tg f Htr Hg' ltac:(rewrite Hst, Hm0; discriminate) Hal' Htg Hl')).
+          -- intros Eq Hs. pose proof (Hstay _ Eq (or_introl eq_refl)) as Hst.
+             destruct (tmpl_tail_hard (g_nst p) r tg Htr Hg') as [Hh _]. apply Hh; [rewrite Hst; exact Hm0|exact Hs].
+        * (* heredoc scanner *)
+          rewrite Hm0 in Hp |- *. change (hcl_rules MHeredoc) with rules_heredoc in *.
+          apply (heredoc_pick_stable st (g_rule p) lk (g_n p) (g_b p) (tbytes r tg) (g_emit p) (g_nst p)); auto.
+          -- intro Eq. pose proof (Hstay _ Eq (or_intror eq_refl)) as Hst.
+             apply (proj2 (tmpl_tail_agree2 e (g_nst p) r tg f Htr Hg' ltac:(rewrite Hst, Hm0; discriminate) Hal' Htg Hl')).
+             rewrite Hst. exact Hm0.
+          -- intros Eq Hs. pose proof (Hstay _ Eq (or_intror eq_refl)) as Hst.
+             destruct (tmpl_tail_hard (g_nst p) r tg Htr Hg') as [_ Hh]. apply Hh; [rewrite Hst; exact Hm0|exact Hs].
+          -- intros t1 k t2 Ee. destruct Hshape as [[Hx _]|(_ & _ & _ & Hdp & _)]; [rewrite Hx in Ee; discriminate|exact Hdp].
       + (* a token of the main scanner *)
         split; [apply repeatZ_blank|]. split; [intros _; exact Htl|]. split; [exact Hnil|]. split.
         * exists lk. rewrite Htl in Hp |- *. change (hcl_rules MMain) with rules_main in *.
           rewrite Hw.
           apply (main_pick_stable st (g_rule p) lk (g_n p) (g_b p) (tbytes r tg) (g_emit p) (g_nst p)); auto.
-          -- rewrite Ee. intros ty [<-|[]]. apply nohd_ty_inv in Hnh. exact Hnh.
           -- intro E. rewrite <- Hw. apply Hnil. exact E.
           -- rewrite <- Hbx. apply tail_okb_ok. apply Hl2. reflexivity.
         * apply IH; auto.
   Qed.
-End Tails.
+End Regap.
 
-(* ---- the theorem for sources without heredocs ---------------------------------------------------- *)
+(* ---- writer tokens of a trace; the theorem --------------------------------------------------------- *)
 
-Definition eone (ps : list step) : Prop := Forall (fun p => g_emit p = EOne (ty_of p)) ps.
+Definition wt_step_l (g : list Z -> Z) (p : step) : list tok :=
+  match g_emit p with
+  | ENone => []
+  | EOne ty => [mkTok ty (g_b p) (g (g_b p)) (zlen (g_gap p))]
+  | ETwo t1 k t2 =>
+      let n1 := (length (g_b p) - k)%nat in
+      [mkTok t1 (firstn n1 (g_b p)) (g (firstn n1 (g_b p))) (zlen (g_gap p));
+       mkTok t2 (skipn n1 (g_b p)) (g (skipn n1 (g_b p))) 0]
+  end.
 
-Lemma wt_ttoks_eone g : forall ps tg off, eone ps ->
-  writer_tokens g off (ttoks off ps tg) = wt_steps g ps tg.
+Definition eshape (ps : list step) : Prop :=
+  Forall (fun p => (g_emit p = EOne (ty_of p) /\ ty_of p <> TokenCHeredoc) \/
+                   (exists k, g_emit p = ETwo TokenCHeredoc k TokenNewline)) ps.
+
+Lemma gen_trace_eshape : forall ps st, gen_trace st ps ->
+  eshape ps /\ Forall (fun p => emits_clean_neof (g_emit p)) ps.
+Proof.
+  induction ps as [|p r IH]; intros st H; [split; constructor|].
+  cbn [gen_trace] in H. destruct H as (_ & _ & Hcl & Hsh & _ & _ & _ & H).
+  destruct (IH _ H) as [H1 H2]. split; constructor; try assumption.
+  destruct Hsh as [Hx|(Hx & _)]; [left; exact Hx|right; exact Hx].
+Qed.
+
+Lemma wt_ttoks_gen g : forall ps tg off, eshape ps ->
+  writer_tokens g off (ttoks off ps tg) = flat_map (wt_step_l g) ps ++ [wt_eof g tg].
 Proof.
   induction ps as [|p r IH]; intros tg off Hm.
   - cbn. unfold wt_eof. f_equal. f_equal. lia.
-  - inversion Hm as [|? ? Ee Hm']; subst.
-    cbn [ttoks]. rewrite Ee. cbn [emit_items tokens_of app writer_tokens k_ty k_bytes k_s k_e].
-    rewrite IH by exact Hm'. unfold wt_steps. cbn [map app]. f_equal. unfold wt_step. f_equal. lia.
+  - inversion Hm as [|? ? Hp Hm']; subst. cbn [ttoks flat_map]. unfold wt_step_l.
+    destruct Hp as [[Ee _]|(k & Ee)]; rewrite Ee.
+    + cbn [emit_items tokens_of app writer_tokens k_ty k_bytes k_s k_e].
+      rewrite IH by exact Hm'. cbn [app]. f_equal. f_equal. lia.
+    + cbn [emit_items tokens_of app writer_tokens k_ty k_bytes k_s k_e].
+      replace (off + zlen (g_gap p) + zlen (g_b p)) with (off + zlen (g_gap p) + zlen (g_b p)) by reflexivity.
+      rewrite IH by exact Hm'. cbn [app]. f_equal; [f_equal; lia|]. f_equal. f_equal. lia.
 Qed.
 
-Lemma eone_regap : forall ps gs, length gs = length ps -> eone ps -> eone (regap ps gs).
+Lemma eshape_regap : forall ps gs, length gs = length ps -> eshape ps -> eshape (regap ps gs).
 Proof.
   induction ps as [|p r IH]; intros gs Hl Hm; destruct gs as [|g gs']; simpl in Hl; try lia; [constructor|].
   inversion Hm; subst. cbn [regap]. constructor; [unfold ty_of in *; cbn [set_gap g_emit]; assumption|].
   apply IH; [lia|assumption].
 Qed.
 
-Lemma gen_trace_eone : forall ps st, gen_trace st ps -> eone ps /\ Forall (fun p => ty_of p <> TokenEOF) ps.
+Lemma merge2_cons_ne x r : ty x <> TokenCHeredoc -> merge2 (x :: r) = x :: merge2 r.
 Proof.
-  induction ps as [|p r IH]; intros st H; [split; constructor|].
-  cbn [gen_trace] in H. destruct H as (_ & _ & Ee & _ & Hne & _ & _ & _ & H).
-  destruct (IH _ H) as [H1 H2]. split; constructor; assumption.
+  intro H. destruct r as [|y f]; [reflexivity|]. rewrite merge2_cons2.
+  apply Z.eqb_neq in H. rewrite H. reflexivity.
 Qed.
 
-Lemma skel_tys g : forall ps body,
-  map skel body = map skel (map (wt_step g) ps) -> map ty body = map ty_of ps.
+Lemma aligned_merge g : forall ps body, eshape ps ->
+  map skel body = map skel (flat_map (wt_step_l g) ps) -> aligned ps (merge2 body).
 Proof.
-  induction ps as [|p r IH]; intros body Hsk; destruct body as [|x f]; try discriminate; [reflexivity|].
-  cbn [map] in *. injection Hsk as E1 E2 E3 Hf. f_equal; [exact E1|apply IH; exact Hf].
+  induction ps as [|p r IH]; intros body Hm Hsk.
+  - destruct body; [split; reflexivity|discriminate].
+  - inversion Hm as [|? ? Hp Hm']; subst. cbn [flat_map] in Hsk. unfold wt_step_l in Hsk.
+    destruct Hp as [[Ee Hne]|(k & Ee)]; rewrite Ee in Hsk.
+    + destruct body as [|x body']; [discriminate|]. cbn [app map] in Hsk. injection Hsk as E1 E2 E3 Hr.
+      rewrite merge2_cons_ne by (rewrite E1; exact Hne).
+      destruct (IH body' Hm' Hr) as [Ha Hb]. split; cbn [map]; [rewrite E2, Ha|rewrite E1, Hb]; reflexivity.
+    + destruct body as [|x1 [|x2 body']]; try discriminate. cbn [app map] in Hsk.
+      injection Hsk as E1 E2 E3 F1 F2 F3 Hr.
+      rewrite merge2_cons2. rewrite E1. cbn [Z.eqb]. rewrite Z.eqb_refl.
+      destruct (IH body' Hm' Hr) as [Ha Hb]. split; cbn [map bytes ty].
+      * rewrite E2, F2, firstn_skipn, Ha. reflexivity.
+      * rewrite Hb. unfold ty_of. rewrite Ee. reflexivity.
+Qed.
+
+Lemma wt_regap_body g : forall ps body, eshape ps ->
+  map skel body = map skel (flat_map (wt_step_l g) ps) ->
+  forallb (fun t => 0 <=? sp t) body = true ->
+  (forall x y f0 f1, body = f0 ++ x :: y :: f1 -> ty x = TokenCHeredoc -> sp y = 0) ->
+  flat_map (wt_step_l g) (regap ps (gaps_of (merge2 body))) = body.
+Proof.
+  induction ps as [|p r IH]; intros body Hm Hsk Hnn Hch.
+  - destruct body; [reflexivity|discriminate].
+  - inversion Hm as [|? ? Hp Hm']; subst. cbn [flat_map] in Hsk. unfold wt_step_l in Hsk.
+    destruct Hp as [[Ee Hne]|(k & Ee)]; rewrite Ee in Hsk.
+    + destruct body as [|x body']; [discriminate|]. cbn [app map] in Hsk. injection Hsk as E1 E2 E3 Hr.
+      rewrite merge2_cons_ne by (rewrite E1; exact Hne).
+      cbn [forallb] in Hnn. apply andb_true_iff in Hnn. destruct Hnn as [Hx Hnn]. apply Z.leb_le in Hx.
+      cbn [gaps_of map regap flat_map]. fold (gaps_of (merge2 body')).
+      rewrite IH; auto.
+      * unfold wt_step_l. cbn [set_gap g_emit g_b g_gap]. rewrite Ee. cbn [app]. f_equal.
+        rewrite zlen_spaces by exact Hx. destruct x as [tx bx gx sx]. cbn in *. subst. reflexivity.
+      * intros x0 y f0 f1 Eb. apply (Hch x0 y (x :: f0) f1). rewrite Eb. reflexivity.
+    + destruct body as [|x1 [|x2 body']]; try discriminate. cbn [app map] in Hsk.
+      injection Hsk as E1 E2 E3 F1 F2 F3 Hr.
+      rewrite merge2_cons2. rewrite E1. cbn [Z.eqb]. rewrite Z.eqb_refl.
+      cbn [forallb] in Hnn. apply andb_true_iff in Hnn. destruct Hnn as [Hx1 Hnn].
+      apply andb_true_iff in Hnn. destruct Hnn as [Hx2 Hnn]. apply Z.leb_le in Hx1.
+      assert (Hs2 : sp x2 = 0) by (apply (Hch x1 x2 [] body'); [reflexivity|exact E1]).
+      cbn [gaps_of map regap flat_map sp]. fold (gaps_of (merge2 body')).
+      rewrite IH; auto.
+      * unfold wt_step_l. cbn [set_gap g_emit g_b g_gap]. rewrite Ee. cbn [app]. f_equal; [|f_equal].
+        -- rewrite zlen_spaces by exact Hx1. destruct x1 as [tx bx gx sx]. cbn in *. subst. reflexivity.
+        -- destruct x2 as [tx bx gx sx]. cbn in *. subst. reflexivity.
+      * intros x0 y f0 f1 Eb. apply (Hch x0 y (x1 :: x2 :: f0) f1). rewrite Eb. reflexivity.
+Qed.
+
+Lemma layout_ch : forall f0 out x y f1, layout_okb out = true -> out = f0 ++ x :: y :: f1 ->
+  ty x = TokenCHeredoc -> sp y = 0.
+Proof.
+  induction f0 as [|a f0 IH]; intros out x y f1 Hl -> Hx.
+  - cbn [app] in Hl. destruct (layout_cons _ _ Hl) as (_ & _ & _ & Hch & _). exact (Hch Hx).
+  - cbn [app] in Hl. destruct (layout_cons _ _ Hl) as (_ & _ & _ & _ & Hl'). eapply IH; [exact Hl'|reflexivity|exact Hx].
 Qed.
 
 Lemma Inv_init : Inv (init_state MMain).
 Proof.
-  split; [apply hinv_init; left; reflexivity|]. unfold okmodes, init_state. cbn. constructor; [left; reflexivity|constructor].
+  split; [apply hinv_init; left; reflexivity|]. split.
+  - unfold okmodes, init_state. cbn. constructor; [left; reflexivity|constructor].
+  - unfold mkinv, init_state. cbn. constructor.
 Qed.
 
 Lemma layout_nonneg : forall out, layout_okb out = true -> forallb (fun t => 0 <=? sp t) out = true.
 Proof.
-  induction out as [|x f IH]; intro H; [reflexivity|]. destruct (layout_cons _ _ H) as (H1 & _ & _ & H4).
+  induction out as [|x f IH]; intro H; [reflexivity|]. destruct (layout_cons _ _ H) as (H1 & _ & _ & _ & H4).
   cbn [forallb]. rewrite IH by exact H4. rewrite andb_true_r. apply Z.leb_le. exact H1.
 Qed.
 
-Theorem relex_exact_nohd g data ks :
-  lex_main data = Some ks -> noheredoc ks = true ->
+(* every source that lexes cleanly: the local layout condition on format's output suffices *)
+Theorem relex_exact_clean g data ks :
+  lex_main data = Some ks -> lexes_clean ks = true ->
   layout_okb (format (writer_tokens g 0 ks)) = true ->
   exists ks', relex (format (writer_tokens g 0 ks)) = Some ks' /\
               writer_tokens g 0 ks' = format (writer_tokens g 0 ks).
 Proof.
-  intros Hlex Hfrag Hlay. unfold lex_main in Hlex.
+  intros Hlex Hclean Hlay. unfold lex_main in Hlex.
   destruct (hcl_scan MMain data) as [its fin] eqn:Hscan. destruct fin; try discriminate.
   inversion Hlex; subst ks. clear Hlex.
-  unfold hcl_scan, scan in Hscan. fold M0 in Hscan.
-  assert (Hclean : forallb (fun k => clean_ty (k_ty k)) (tokens_of its) = true).
-  { unfold noheredoc in Hfrag. rewrite forallb_forall in Hfrag |- *. intros k Hk.
-    specialize (Hfrag k Hk). apply nohd_ty_inv in Hfrag. tauto. }
+  unfold hcl_scan, scan in Hscan. fold M0 in Hscan. unfold lexes_clean in Hclean.
   destruct (run_trace _ _ _ _ _ Hscan Hclean) as (ps & tg & Hdata & Htr & Htk).
-  unfold noheredoc in Hfrag. rewrite Htk in Hfrag.
-  pose proof (gen_trace_of ps _ tg 0 Htr Inv_init (or_introl eq_refl) Hfrag) as Hg.
-  destruct (gen_trace_eone _ _ Hg) as [Heone Hneof].
-  rewrite Htk in *. rewrite (wt_ttoks_eone g ps tg 0 Heone) in *. unfold wt_steps in *.
-  assert (Hnoeof : forallb (fun t => negb (is (ty t) TokenEOF)) (map (wt_step g) ps) = true).
-  { clear -Hneof. induction Hneof as [|p r Hne _ IH]; [reflexivity|]. cbn [map forallb]. rewrite IH, andb_true_r.
-    unfold wt_step, is. cbn [ty]. apply negb_true_iff. apply Z.eqb_neq. exact Hne. }
-  destruct (format_eof_last (map (wt_step g) ps) (wt_eof g tg) Hnoeof eq_refl) as (body & Hfmt & Hsk).
+  rewrite Htk in Hclean.
+  pose proof (gen_trace_of ps _ tg 0 Htr Inv_init Hclean) as Hg.
+  destruct (gen_trace_eshape _ _ Hg) as [Hesh Hneof].
+  rewrite Htk in *. rewrite (wt_ttoks_gen g ps tg 0 Hesh) in *.
+  set (body0 := flat_map (wt_step_l g) ps) in *. set (e := wt_eof g tg) in *.
+  assert (Hnoeof : forallb (fun t => negb (is (ty t) TokenEOF)) body0 = true).
+  { subst body0. clear -Hneof Hesh. induction ps as [|p r IH]; [reflexivity|].
+    inversion Hneof as [|? ? Hp Hn']; subst. inversion Hesh as [|? ? Hs Hs']; subst.
+    cbn [flat_map]. rewrite forallb_app, (IH Hs' Hn'), andb_true_r. unfold wt_step_l.
+    destruct Hs as [[Ee _]|(k & Ee)]; rewrite Ee in *; cbn [forallb ty]; unfold is.
+    - destruct (Hp _ (or_introl eq_refl)) as [_ H]. apply Z.eqb_neq in H. rewrite H. reflexivity.
+    - reflexivity. }
+  destruct (format_eof_last body0 e Hnoeof eq_refl) as (body & Hfmt & Hsk).
   rewrite Hfmt in *.
-  set (e := wt_eof g tg) in *.
-  pose proof (skel_bytes g ps body Hsk) as Hbytes. pose proof (skel_tys g ps body Hsk) as Htys.
+  pose proof (aligned_merge g ps body Hesh Hsk) as Hal.
   assert (Hspe : 0 <= sp e) by (unfold e, wt_eof; cbn [sp]; apply zlen_nonneg).
   assert (Htg0 : tg = [] -> sp e = 0) by (intros ->; reflexivity).
-  pose proof (regap_cond_gen e eq_refl ps _ tg body Htr Hg (conj Hbytes Htys) Htg0 Hlay) as Hcond.
+  pose proof (layout_LO e (length body) body (le_n _) Hlay) as HLO.
+  pose proof (regap_cond_gen e eq_refl ps _ tg (merge2 body) Htr Hg Hal Htg0 HLO) as Hcond.
   pose proof (regap_trace _ _ _ _ _ Htr Hcond) as Htr'.
   destruct (trace_run _ _ _ 0 Htr') as (fuel & its' & Hrun & Htk').
-  rewrite <- (write_regap e eq_refl ps body Hbytes) in Hrun.
+  rewrite <- (write_regap e eq_refl ps (merge2 body) (proj1 Hal)) in Hrun.
+  rewrite (write_merge2 e (length body) body (le_n _) Hlay) in Hrun.
   apply run_scan_agree in Hrun.
   exists (tokens_of its'). split.
   - unfold relex, lex_main. rewrite Hrun. reflexivity.
   - rewrite Htk'.
-    assert (Hlen : length (gaps_of body) = length ps).
-    { unfold gaps_of. rewrite map_length. apply (f_equal (@length _)) in Hbytes. rewrite !map_length in Hbytes. exact Hbytes. }
-    rewrite (wt_ttoks_eone g _ _ 0 (eone_regap ps _ Hlen Heone)). unfold wt_steps.
+    assert (Hlen : length (gaps_of (merge2 body)) = length ps).
+    { unfold gaps_of. rewrite map_length. destruct Hal as [Hb _]. apply (f_equal (@length _)) in Hb. rewrite !map_length in Hb. exact Hb. }
+    rewrite (wt_ttoks_gen g _ _ 0 (eshape_regap ps _ Hlen Hesh)).
     pose proof (layout_nonneg _ Hlay) as Hnn. rewrite forallb_app in Hnn.
     apply andb_true_iff in Hnn. destruct Hnn as [Hnn _].
-    rewrite (wt_steps_regap g ps body Hsk Hnn). f_equal. f_equal.
-    unfold e, wt_eof. cbn [sp]. rewrite zlen_spaces by apply zlen_nonneg. reflexivity.
+    rewrite (wt_regap_body g ps body Hesh Hsk Hnn).
+    + f_equal. f_equal. unfold e, wt_eof. cbn [sp]. rewrite zlen_spaces by apply zlen_nonneg. reflexivity.
+    + intros x y f0 f1 Eb Hx. apply (layout_ch f0 (body ++ [e]) x y (f1 ++ [e]) Hlay); [|exact Hx].
+      rewrite Eb, <- app_assoc. reflexivity.
 Qed.
 
 (* ==== 6. the formatter establishes the layout condition ======================== *)
@@ -2706,7 +3822,7 @@ Definition mtypes : list Z :=
    TokenFatArrow; TokenOBrack; TokenCBrack; TokenOParen; TokenCParen; TokenDot; TokenComma;
    TokenStar; TokenSlash; TokenPercent; TokenPlus; TokenMinus; TokenEqual; TokenLessThan;
    TokenGreaterThan; TokenBang; TokenQuestion; TokenColon; TokenOBrace; TokenCBrace;
-   TokenTemplateSeqEnd; TokenOQuote].
+   TokenTemplateSeqEnd; TokenOQuote; TokenOHeredoc].
 
 (* possible first bytes, by type (identifiers: everything outside [nonident]) *)
 Definition fbl (t : Z) : list Z :=
@@ -2721,6 +3837,7 @@ Definition fbl (t : Z) : list Z :=
   else if t =? TokenOBrace then [123] else if t =? TokenCBrace then [125]
   else if t =? TokenTemplateSeqEnd then [125; 126]
   else if t =? TokenOQuote then [34]
+  else if t =? TokenOHeredoc then [60]
   else if existsb (Z.eqb t) self_chars then [t]
   else [].
 
@@ -2733,7 +3850,7 @@ Proof. destruct (Nat.max 1 n) eqn:E; [lia|]. simpl. rewrite Nat.sub_0_r. reflexi
 
 Lemma main_shape (st : hstate) r s lk n ty st' :
   In r rules_main -> r_match r s = Some (lk, n) -> (0 < lk)%nat ->
-  r_act r st (firstn (Nat.max 1 n) s) = Some (EOne ty, st') -> nohd_ty ty = true ->
+  r_act r st (firstn (Nat.max 1 n) s) = Some (EOne ty, st') -> clean_ty ty = true ->
   In ty mtypes /\ exists c b', firstn (Nat.max 1 n) s = c :: b' /\ first_ok ty c.
 Proof.
   intros Hin Hm Hlk Ha Hs.
@@ -2801,7 +3918,10 @@ Proof.
     cbn [r_match R] in Hm. apply m_lit_inv in Hm. destruct Hm as (Hp & _). apply is_prefix_hd in Hp. subst c.
     apply (X TokenOQuote eq_refl); vm_compute; tauto. }
   destruct Hin as [<-|Hin].
-  { exfalso. cbn [r_act R] in Ha. apply a_begin_heredoc_emit in Ha. inversion Ha; subst ty. vm_compute in Hs. discriminate. }
+  { cbn [r_act R] in Ha. apply a_begin_heredoc_emit in Ha. inversion Ha; subst ty.
+    cbn [r_match R] in Hm. unfold m_heredoc_begin in Hm. destruct y as [|c1 y']; [discriminate|].
+    destruct ((c =? 60) && (c1 =? 60)) eqn:E; [|discriminate]. apply andb_true_iff in E. destruct E as [E _].
+    apply Z.eqb_eq in E. subst c. apply (X TokenOHeredoc eq_refl); vm_compute; tauto. }
   destruct Hin as [<-|Hin].
   { exfalso. cbn [r_act R] in Ha. unfold a_tok in Ha. inversion Ha; subst ty. vm_compute in Hs. discriminate. }
   destruct Hin as [<-|Hin].
@@ -2825,7 +3945,8 @@ Definition mk0 (t : Z) (bs : list Z) : tok := mkTok t bs 0 0.
 (* can the formatter put no space between a token of type x and a following one
    of type y (any token before, any bytes)? *)
 (* all token types of the fragment (and Nil for "no token before") *)
-Definition tltypes : list Z := [TokenQuotedLit; TokenCQuote; TokenTemplateInterp; TokenTemplateControl].
+Definition tltypes : list Z :=
+  [TokenQuotedLit; TokenCQuote; TokenTemplateInterp; TokenTemplateControl; TokenStringLit; TokenCHeredoc].
 Definition atypes : list Z := TokenNil :: mtypes ++ tltypes.
 
 Definition zero_possible (x y : Z) : bool :=
@@ -2866,7 +3987,8 @@ Qed.
 Definition all_fb (P : Z -> bool) (t : Z) : bool := forallb P (fbl t).
 
 (* first bytes of the one-byte tokens of a type *)
-Definition fbl1 (t : Z) : list Z := if t =? TokenTemplateSeqEnd then [125] else fbl t.
+Definition fbl1 (t : Z) : list Z :=
+  if t =? TokenTemplateSeqEnd then [125] else if t =? TokenOHeredoc then [] else fbl t.
 
 Definition pair_ok (x y : Z) : bool :=
   if y =? TokenIdent then negb (x =? TokenNumberLit) && negb (x =? TokenIdent)
@@ -2878,7 +4000,7 @@ Definition pair_ok (x y : Z) : bool :=
 Definition hazard_pair (x y : Z) : bool :=
   ((x =? TokenBang) && (existsb (Z.eqb 61) (fbl y))) || (is_dots x && is_dots y).
 
-(* finite exploration: all 34 x 34 pairs of main-scanner types, all 39 types before, both
+(* finite exploration: all 35 x 35 pairs of main-scanner types, all 42 types before, both
    byte variants of subject and after *)
 Lemma pair_table :
   forallb (fun x => forallb (fun y =>
@@ -2914,7 +4036,6 @@ Proof. vm_compute. reflexivity. Qed.
 
 (* finite exploration: after an opening quote, a literal or a closing "}" of a template
    sequence, a token of the string scanner never gets a space (any token before, any bytes) *)
-Definition tl_before : list Z := [TokenOQuote; TokenQuotedLit; TokenTemplateSeqEnd].
 Lemma tl_table :
   forallb (fun x => forallb (fun y => forallb (fun bt => forallb (fun sb => forallb (fun ab =>
      negb (space_after (mk0 x sb) (mk0 bt []) (mk0 y ab))) [[122]; [101; 53]]) [[120]; [105; 110]])
@@ -2957,7 +4078,8 @@ Qed.
 Definition tok_shape (t : tok) : Prop :=
   In (ty t) mtypes /\ (exists c b', bytes t = c :: b' /\ first_ok (ty t) c) /\
   (ty t = TokenDot -> bytes t = [46]) /\ (ty t = TokenEllipsis -> bytes t = [46; 46; 46]) /\
-  (ty t = TokenTemplateSeqEnd -> forall c, bytes t = [c] -> c = 125).
+  (ty t = TokenTemplateSeqEnd -> forall c, bytes t = [c] -> c = 125) /\
+  (ty t = TokenOHeredoc -> (2 <= length (bytes t))%nat).
 
 Lemma is_prefix_firstn p : forall s, is_prefix p s = true -> firstn (length p) s = p.
 Proof.
@@ -3032,22 +4154,75 @@ Proof.
     apply Z.eqb_eq in H; subst; cbn [In]; tauto.
 Qed.
 
+Lemma main_ohd_len (st : hstate) r s lk n ty st' :
+  In r rules_main -> r_match r s = Some (lk, n) ->
+  r_act r st (firstn (Nat.max 1 n) s) = Some (EOne ty, st') ->
+  ty = TokenOHeredoc -> (2 <= length (firstn (Nat.max 1 n) s))%nat.
+Proof.
+  intros Hin Hm Ha.
+  unfold rules_main, rule_spaces in Hin; cbn [In] in Hin.
+  do 19 (destruct Hin as [<-|Hin];
+    [ cbn [r_act R] in Ha;
+      first
+        [ unfold a_skip in Ha; discriminate Ha
+        | unfold a_tok in Ha; inversion Ha; subst ty; intro Hx; discriminate Hx
+        | cbn [r_match R] in Hm; apply m_self_inv in Hm; destruct Hm as (-> & -> & c0 & y0 & -> & Hself);
+          unfold a_self in Ha; simpl in Ha; inversion Ha; subst ty; intro Hx; subst c0;
+          vm_compute in Hself; discriminate Hself
+        | unfold a_open_brace in Ha; inversion Ha; subst ty; intro Hx; discriminate Hx
+        | unfold a_close in Ha; destruct (ret_matches st); [destruct (fret _); [|discriminate]|];
+          inversion Ha; subst ty; intro Hx; discriminate Hx
+        | unfold a_begin_string in Ha; inversion Ha; subst ty; intro Hx; discriminate Hx ]
+    |]).
+  destruct Hin as [<-|Hin].
+  { intros _. cbn [r_match R] in Hm. pose proof (m_heredoc_begin_same _ _ _ Hm) as ->.
+    destruct (heredoc_begin_bound _ _ Hm) as [H1 H2].
+    assert (Hn4 : (4 <= n)%nat).
+    { unfold m_heredoc_begin in Hm. destruct s as [|c0 [|c1 r0]]; try discriminate.
+      destruct ((c0 =? 60) && (c1 =? 60)); [|discriminate]. cbv zeta in Hm.
+      destruct (ident_len _); [discriminate|]. destruct (newline_len _); [discriminate|].
+      unfold same in Hm. inversion Hm. lia. }
+    rewrite firstn_length. lia. }
+  repeat (destruct Hin as [<-|Hin];
+    [cbn [r_act R] in Ha; unfold a_tok in Ha; inversion Ha; subst ty; intro Hx; discriminate Hx|]).
+  destruct Hin.
+Qed.
+
+(* the types a step emits *)
+Definition stys (p : step) : list Z := emit_types (g_emit p).
+
+Lemma wt_step_tys g p : map ty (wt_step_l g p) = stys p.
+Proof. unfold wt_step_l, stys. destruct (g_emit p); reflexivity. Qed.
+
 Lemma shapes_trace g : forall ps st tg,
-  trace_ok st ps tg -> gen_trace st ps -> Forall gshape (map (wt_step g) ps).
+  trace_ok st ps tg -> gen_trace st ps -> Forall gshape (flat_map (wt_step_l g) ps).
 Proof.
   induction ps as [|p r IH]; intros st tg Ht Hg; [constructor|].
   cbn [trace_ok] in Ht. destruct Ht as (Hbl & Hgm & Hne & Hnb & (lk & Hp) & Hb & Ha & He & Htr).
-  cbn [gen_trace] in Hg. destruct Hg as (Hi & _ & Ee & Hs & Heof & Htl & _ & _ & Hg').
-  cbn [map]. constructor; [|eapply IH; eassumption].
-  unfold gshape, wt_step. cbn [ty bytes]. destruct (tl_ty (ty_of p)) eqn:Et; [apply tl_in; exact Et|].
-  rewrite Htl in Hp. change (hcl_rules MMain) with rules_main in Hp.
-  pose proof Hp as Hp2. apply pick_spec in Hp2. destruct Hp2 as [Hx|(Hin & Hmt & Hlk)]; [discriminate|].
-  rewrite Ee in Ha. rewrite Hb in Ha.
-  destruct (main_shape st _ _ _ _ _ _ Hin Hmt Hlk Ha Hs) as (Hty & c & b' & Eb & Hf).
-  destruct (main_dots st _ _ _ _ _ _ Hin Hmt Ha) as (Hd & Hel).
-  pose proof (main_seqend st _ _ _ _ _ _ Hin Hmt Ha) as Hse.
-  rewrite <- Hb in *.
-  unfold tok_shape. cbn [ty bytes]. split; [exact Hty|]. split; [exists c, b'; auto|]. split; [assumption|]. split; assumption.
+  cbn [gen_trace] in Hg. destruct Hg as (Hi & _ & Hcl & Hsh & Htl & _ & _ & Hg').
+  cbn [flat_map]. apply Forall_app. split; [|eapply IH; eassumption].
+  unfold wt_step_l. destruct Hsh as [[Ee Hnc]|((k & Ee) & _ & _ & _ & Ht2)].
+  - rewrite Ee. constructor; [|constructor].
+    unfold gshape. cbn [ty bytes]. destruct (tl_ty (ty_of p)) eqn:Et; [apply tl_in; exact Et|].
+    rewrite Htl in Hp. change (hcl_rules MMain) with rules_main in Hp.
+    pose proof Hp as Hp2. apply pick_spec in Hp2. destruct Hp2 as [Hx|(Hin & Hmt & Hlk)]; [discriminate|].
+    rewrite Ee in Ha. rewrite Hb in Ha.
+    assert (Hs : clean_ty (ty_of p) = true) by (apply Hcl; rewrite Ee; left; reflexivity).
+    destruct (main_shape st _ _ _ _ _ _ Hin Hmt Hlk Ha Hs) as (Hty & c & b' & Eb & Hf).
+    destruct (main_dots st _ _ _ _ _ _ Hin Hmt Ha) as (Hd & Hel).
+    pose proof (main_seqend st _ _ _ _ _ _ Hin Hmt Ha) as Hse.
+    pose proof (main_ohd_len st _ _ _ _ _ _ Hin Hmt Ha) as Hoh.
+    rewrite <- Hb in *.
+    unfold tok_shape. cbn [ty bytes]. split; [exact Hty|]. split; [exists c, b'; auto|].
+    split; [assumption|]. split; [assumption|]. split; assumption.
+  - rewrite Ee. constructor; [|constructor; [|constructor]].
+    + unfold gshape. cbn [ty]. cbn. tauto.
+    + unfold gshape. cbn [ty bytes]. cbn [tl_ty Z.eqb orb].
+      unfold tok_shape. cbn [ty bytes].
+      split; [vm_compute; tauto|]. split.
+      { destruct (Ht2 _ _ _ Ee) as [E|E]; rewrite E; eexists; eexists; (split; [reflexivity|]); vm_compute; tauto. }
+      split; [intro Hx; discriminate Hx|]. split; [intro Hx; discriminate Hx|].
+      split; [intro Hx; discriminate Hx|intro Hx; discriminate Hx].
 Qed.
 
 Lemma tok_shape_sk a b : sk_eq a b -> tok_shape a -> tok_shape b.
@@ -3190,7 +4365,7 @@ Lemma pair_tail x y w :
   (ty x = TokenNumberLit -> is_dots (ty y) = true -> dots_stop w = true) ->
   tail_okb (bytes x) (bytes y ++ w) = true.
 Proof.
-  intros (Hxt & (cx & bx & Ebx & Hfx) & _ & _ & Hxse) (Hyt & (cy & by' & Eby & Hfy) & Hyd & Hye & _) Hp Hdots.
+  intros (Hxt & (cx & bx & Ebx & Hfx) & _ & _ & Hxse & Hxoh) (Hyt & (cy & by' & Eby & Hfy) & Hyd & Hye & _) Hp Hdots.
   rewrite Ebx, Eby. cbn [app]. unfold tail_okb.
   unfold pair_ok in Hp.
   apply andb_true_iff. split; [apply andb_true_iff; split|].
@@ -3234,8 +4409,10 @@ Proof.
       congruence.
     + apply andb_true_iff in Hp. destruct Hp as [_ Hp].
       assert (Hfx1 : In cx (fbl1 (ty x))).
-      { unfold fbl1. destruct (ty x =? TokenTemplateSeqEnd) eqn:Ese; [|exact Hfx].
-        apply Z.eqb_eq in Ese. rewrite (Hxse Ese cx Ebx). left. reflexivity. }
+      { unfold fbl1. destruct (ty x =? TokenTemplateSeqEnd) eqn:Ese.
+        - apply Z.eqb_eq in Ese. rewrite (Hxse Ese cx Ebx). left. reflexivity.
+        - destruct (ty x =? TokenOHeredoc) eqn:Eoh; [|exact Hfx].
+          apply Z.eqb_eq in Eoh. specialize (Hxoh Eoh). rewrite Ebx in Hxoh. simpl in Hxoh. lia. }
       rewrite forallb_forall in Hp. specialize (Hp cx Hfx1). unfold all_fb in Hp. rewrite forallb_forall in Hp.
       unfold first_ok in Hfy. rewrite Ei in Hfy. specialize (Hp cy Hfy). apply negb_true_iff in Hp. exact Hp.
 Qed.
@@ -3327,7 +4504,7 @@ Definition tlchain (x : tok) (f : list tok) : Prop := tlchainT (ty x) (map ty f)
 
 Lemma tl_before_not_newline x : In (ty x) tl_before -> tok_is_newline x = false.
 Proof.
-  unfold tl_before, tok_is_newline, is. cbn [In]. intros [H|[H|[H|[]]]]; rewrite <- H; reflexivity.
+  unfold tl_before, tok_is_newline, is. cbn [In]. intros [H|[H|[H|[H|[H|[]]]]]]; rewrite <- H; reflexivity.
 Qed.
 
 Lemma tl_not_cellfirst y : tl_ty (ty y) = true -> ~ cellfirst y.
@@ -3347,19 +4524,21 @@ Proof.
   rewrite H, andb_false_r. reflexivity.
 Qed.
 
-Lemma quote_close_tail x w : tok_shape x -> (ty x = TokenOQuote \/ ty x = TokenTemplateSeqEnd) ->
+Lemma quote_close_tail x w : tok_shape x ->
+  (ty x = TokenOQuote \/ ty x = TokenTemplateSeqEnd \/ ty x = TokenOHeredoc) ->
   tail_okb (bytes x) w = true.
 Proof.
-  intros (Hxt & (cx & bx & Ebx & Hfx) & _ & _ & Hse) Hty. rewrite Ebx.
-  assert (Hn : ty x <> TokenIdent /\ ty x <> TokenNumberLit) by (destruct Hty as [-> | ->]; split; discriminate).
+  intros (Hxt & (cx & bx & Ebx & Hfx) & _ & _ & Hse & Hoh) Hty. rewrite Ebx.
+  assert (Hn : ty x <> TokenIdent /\ ty x <> TokenNumberLit) by (destruct Hty as [-> |[-> | ->]]; split; discriminate).
   destruct Hn as [Hni Hnn].
   apply tail_okb_plain.
   - apply (first_not_digit _ _ Hxt Hfx Hnn).
   - apply (first_not_idfirst _ _ Hxt Hfx Hni).
-  - intros ->. destruct Hty as [Hty|Hty].
+  - intros ->. destruct Hty as [Hty|[Hty|Hty]].
     + unfold first_ok in Hfx. rewrite Hty in Hfx. cbn in Hfx. destruct Hfx as [<-|[]].
       vm_compute forbidden_next. destruct w; reflexivity.
     + rewrite (Hse Hty cx Ebx). vm_compute forbidden_next. destruct w; reflexivity.
+    + specialize (Hoh Hty). rewrite Ebx in Hoh. simpl in Hoh. lia.
 Qed.
 
 (* what follows "<number>." or "<number>..." does not continue the number *)
@@ -3383,7 +4562,7 @@ Proof.
     unfold tlchain in Htc. cbn [map tlchainT] in Htc. destruct Htc as [Htc _]. specialize (Htc Etz).
     unfold is_dots in Hd. apply orb_true_iff in Hd. unfold tl_before in Htc. cbn [In] in Htc.
     destruct Hd as [Hd|Hd]; apply Z.eqb_eq in Hd; rewrite Hd in Htc;
-      destruct Htc as [H|[H|[H|[]]]]; discriminate H. }
+      destruct Htc as [H|[H|[H|[H|[H|[]]]]]]; discriminate H. }
   assert (Hsa : space_after y x z = false).
   { destruct Hp0 as [Hq|[Hq|[_ Hj]]]; [|exact Hq|].
     - rewrite (tok_is_newline_dots y Hd) in Hq. discriminate.
@@ -3419,18 +4598,32 @@ Proof.
     apply dots_stop_plain. apply H4; auto. apply Z.eqb_neq. exact Ei.
 Qed.
 
+(* after the closing marker of a heredoc comes its Newline *)
+Fixpoint chainNT (tx : Z) (l : list Z) : Prop :=
+  match l with
+  | [] => tx <> TokenCHeredoc
+  | ty' :: l' => (tx = TokenCHeredoc -> ty' = TokenNewline) /\ chainNT ty' l'
+  end.
+Definition chainN (x : tok) (f : list tok) : Prop := chainNT (ty x) (map ty f).
+
+Lemma space_after_newline s b a : ty a = TokenNewline -> space_after s b a = false.
+Proof. intro H. unfold space_after. rewrite H. reflexivity. Qed.
+
+Lemma layout_eof e : bytes e = [] -> ty e = TokenEOF -> layout_okb [e] = (0 <=? sp e).
+Proof. intros H1 H2. cbn [layout_okb]. rewrite H1, H2. cbn. rewrite !andb_true_r. reflexivity. Qed.
+
 Lemma layout_flat e : bytes e = [] -> ty e = TokenEOF -> 0 <= sp e -> forall body prev,
   fine prev body -> Forall gshape body -> In (ty prev) atypes ->
   hz (map tyb body) = true ->
   (match body with
-   | x :: f => 0 <= sp x /\ (tl_ty (ty x) = true -> sp x = 0) /\ tlchain x f
+   | x :: f => 0 <= sp x /\ (tl_ty (ty x) = true -> sp x = 0) /\ tlchain x f /\ chainN x f
    | [] => True end) ->
   layout_okb (body ++ [e]) = true.
 Proof.
   intros He Hte Hspe. induction body as [|x f IH]; intros prev Hf Hs Hprev Hz H0.
-  - cbn [app layout_okb]. rewrite Hte, He. cbn [tl_ty tail_okb]. rewrite !andb_true_r. apply Z.leb_le. exact Hspe.
-  - inversion Hs as [|? ? Hsx Hsf]; subst. destruct H0 as (Hx0 & Hxtl & Hchain).
-    cbn [app layout_okb]. apply andb_true_iff. split; [apply andb_true_iff; split|].
+  - cbn [app]. rewrite (layout_eof e He Hte). apply Z.leb_le. exact Hspe.
+  - inversion Hs as [|? ? Hsx Hsf]; subst. destruct H0 as (Hx0 & Hxtl & Hchain & HchN).
+    cbn [app layout_okb]. apply andb_true_iff. split; [apply andb_true_iff; split; [apply andb_true_iff; split|]|].
     + apply Z.leb_le. exact Hx0.
     + destruct (tl_ty (ty x)) eqn:Etx.
       * (* a token of the string scanner *)
@@ -3448,7 +4641,7 @@ Proof.
         { exfalso. specialize (Hc1 eq_refl). unfold tl_before in Hc1. cbn [In] in Hc1.
           unfold is_tmpl_open in Eo. apply orb_true_iff in Eo.
           destruct Eo as [Eo|Eo]; apply Z.eqb_eq in Eo; rewrite Eo in Hc1;
-            destruct Hc1 as [H|[H|[H|[]]]]; discriminate H. }
+            destruct Hc1 as [H|[H|[H|[H|[H|[]]]]]]; discriminate H. }
         destruct Hgy as (Hyt & (cy & by' & Eby & Hfy) & _). rewrite Eby. cbn [app starts_with].
         destruct (cy =? 126) eqn:E126; [|reflexivity]. exfalso. apply Z.eqb_eq in E126. subst cy.
         cbn [map] in Hz. cbn [hz] in Hz.
@@ -3473,8 +4666,8 @@ Proof.
         unfold gshape in Hgy. destruct (tl_ty (ty y)) eqn:Ety.
         { (* x opens the template or closes a sequence inside it *)
           apply quote_close_tail; [exact Hsx|]. specialize (Hc1 eq_refl). unfold tl_before in Hc1. cbn [In] in Hc1.
-          destruct Hc1 as [H|[H|[H|[]]]]; [left; auto| |right; auto].
-          exfalso. rewrite <- H in Etx. discriminate Etx. }
+          destruct Hc1 as [H|[H|[H|[H|[H|[]]]]]]; [left; auto| |right; left; auto|right; right; auto|];
+            exfalso; rewrite <- H in Etx; discriminate Etx. }
         destruct Hp0 as [Hq|Hq].
         { apply newline_tail; assumption. }
         assert (Hxin : In (ty x) atypes) by (apply shape_ty_in; unfold gshape; rewrite Etx; exact Hsx).
@@ -3499,14 +4692,26 @@ Proof.
         rewrite Hnh in T. cbn [orb] in T.
         apply pair_tail; [split; assumption|split; assumption|exact T|].
         intros Hxn Hyd. apply (after_number_dots e x y f' He Hspe); auto; try (split; assumption).
+    + (* the Newline that ends the closing line of a heredoc *)
+      destruct (ty x =? TokenCHeredoc) eqn:Ech; [|reflexivity]. cbn [negb orb]. apply Z.eqb_eq in Ech.
+      destruct f as [|y f'].
+      { exfalso. unfold chainN in HchN. cbn in HchN. contradiction. }
+      cbn [app]. apply Z.eqb_eq.
+      unfold chainN in HchN. cbn [map chainNT] in HchN. destruct HchN as [HyN _]. specialize (HyN Ech).
+      cbn [fine] in Hf. destruct Hf as [[_ Hcase] _].
+      destruct Hcase as [Hq|[Hq|(bf & _ & Hq)]].
+      * unfold tok_is_newline, is in Hq. rewrite Ech in Hq. discriminate.
+      * destruct Hq as [_ [Hq|Hq]]; rewrite HyN in Hq; discriminate.
+      * rewrite Hq. rewrite (space_after_newline x bf y HyN). reflexivity.
     + destruct f as [|y f'].
-      * cbn [app layout_okb]. rewrite Hte, He. cbn [tl_ty tail_okb]. rewrite !andb_true_r. apply Z.leb_le. exact Hspe.
+      * cbn [app]. rewrite (layout_eof e He Hte). apply Z.leb_le. exact Hspe.
       * cbn [fine] in Hf. destruct Hf as [Hp Hf']. pose proof Hp as [Hnn Hcase].
         unfold tlchain in Hchain. cbn [map tlchainT] in Hchain. destruct Hchain as [Hc1 Hc2].
+        unfold chainN in HchN. cbn [map chainNT] in HchN. destruct HchN as [_ HchN2].
         assert (Hxin : In (ty x) atypes) by (apply shape_ty_in; exact Hsx).
         apply (IH x); auto.
         -- cbn [map] in Hz |- *. eapply hz_tail. exact Hz.
-        -- split; [exact Hnn|]. split; [|exact Hc2].
+        -- split; [exact Hnn|]. split; [|split; [exact Hc2|exact HchN2]].
            intro Ety. specialize (Hc1 Ety).
            destruct Hcase as [Hq|[Hq|(bf & Hbf & Hq)]].
            ++ rewrite (tl_before_not_newline x Hc1) in Hq. discriminate.
@@ -3549,39 +4754,65 @@ Proof.
   - eapply IH; [|eassumption]. injection H as _ _ _ Hr. exact Hr.
 Qed.
 
-(* the chain property of a trace *)
-Lemma tlchain_trace : forall ps st p, gen_trace st (p :: ps) -> tlchainT (ty_of p) (map ty_of ps).
+(* the chain properties of a trace, on the flattened token types *)
+Lemma chains_flat : forall ps st tprev, gen_trace st ps ->
+  (l_cur st <> MMain -> In tprev tl_before) -> tprev <> TokenCHeredoc ->
+  tlchainT tprev (flat_map stys ps) /\ chainNT tprev (flat_map stys ps).
 Proof.
-  induction ps as [|p2 r IH]; intros st p Hg; [exact I|].
-  cbn [gen_trace] in Hg. destruct Hg as (_ & _ & _ & _ & _ & _ & _ & Hprev & Hg').
-  cbn [map tlchainT]. split; [|eapply IH; exact Hg'].
-  intro Et. cbn [gen_trace] in Hg'. destruct Hg' as (_ & _ & _ & _ & _ & Hm2 & _).
-  rewrite Et in Hm2. unfold tl_before. cbn [In]. destruct (Hprev Hm2) as [H|[H|H]]; rewrite H; tauto.
+  induction ps as [|p r IH]; intros st tprev Hg Hpv Hne; [split; [exact I|exact Hne]|].
+  cbn [gen_trace] in Hg. destruct Hg as (_ & _ & _ & Hsh & Htl & _ & Hprev & Hg').
+  cbn [flat_map]. unfold stys at 1 3.
+  destruct Hsh as [[Ee Hnc]|((k & Ee) & Hm1 & _)].
+  - rewrite Ee. cbn [emit_types app tlchainT chainNT].
+    destruct (IH (g_nst p) (ty_of p) Hg' Hprev Hnc) as [H1 H2].
+    split; (split; [|assumption]).
+    + intro Et. rewrite Et in Htl. exact (Hpv Htl).
+    + intro Hx. contradiction.
+  - rewrite Ee. cbn [emit_types app tlchainT chainNT].
+    assert (Hnl : TokenNewline <> TokenCHeredoc) by discriminate.
+    destruct (IH (g_nst p) TokenNewline Hg' ltac:(intro Hx; contradiction) Hnl) as [H1 H2].
+    assert (Etl : tl_ty (ty_of p) = true) by (unfold ty_of; rewrite Ee; reflexivity).
+    rewrite Etl in Htl.
+    split.
+    + split; [intros _; exact (Hpv Htl)|]. split; [intro Hx; discriminate Hx|exact H1].
+    + split; [intro Hx; contradiction|]. split; [intros _; reflexivity|exact H2].
 Qed.
 
-(* the formatter's output satisfies the layout condition: sources without heredocs
-   and without hazard pattern *)
-Theorem layout_of_format_nohd g data ks :
-  lex_main data = Some ks -> noheredoc ks = true -> hazard_free ks = true ->
+Lemma tys_of_skel : forall a b : list tok, map skel a = map skel b -> map ty a = map ty b.
+Proof.
+  induction a as [|x a IH]; intros b H; destruct b as [|y b]; try discriminate; [reflexivity|].
+  cbn [map] in *. injection H as E1 E2 E3 H. rewrite E1. f_equal. apply IH. exact H.
+Qed.
+
+Lemma flat_tys g ps : map ty (flat_map (wt_step_l g) ps) = flat_map stys ps.
+Proof.
+  induction ps as [|p r IH]; [reflexivity|]. cbn [flat_map]. rewrite map_app, IH, wt_step_tys. reflexivity.
+Qed.
+
+(* the formatter's output satisfies the layout condition: every source that lexes cleanly
+   and has no hazard pattern *)
+Theorem layout_of_format_clean g data ks :
+  lex_main data = Some ks -> lexes_clean ks = true -> hazard_free ks = true ->
   layout_okb (format (writer_tokens g 0 ks)) = true.
 Proof.
-  intros Hlex Hfrag Hhz. unfold lex_main in Hlex.
+  intros Hlex Hclean Hhz. unfold lex_main in Hlex.
   destruct (hcl_scan MMain data) as [its fin] eqn:Hscan. destruct fin; try discriminate.
   inversion Hlex; subst ks. clear Hlex.
-  unfold hcl_scan, scan in Hscan. fold M0 in Hscan.
-  assert (Hclean : forallb (fun k => clean_ty (k_ty k)) (tokens_of its) = true).
-  { unfold noheredoc in Hfrag. rewrite forallb_forall in Hfrag |- *. intros k Hk.
-    specialize (Hfrag k Hk). apply nohd_ty_inv in Hfrag. tauto. }
+  unfold hcl_scan, scan in Hscan. fold M0 in Hscan. unfold lexes_clean in Hclean.
   destruct (run_trace _ _ _ _ _ Hscan Hclean) as (ps & tg & Hdata & Htr & Htk).
-  unfold noheredoc in Hfrag. rewrite Htk in Hfrag.
-  pose proof (gen_trace_of ps _ tg 0 Htr Inv_init (or_introl eq_refl) Hfrag) as Hg.
-  destruct (gen_trace_eone _ _ Hg) as [Heone Hneof].
+  rewrite Htk in Hclean.
+  pose proof (gen_trace_of ps _ tg 0 Htr Inv_init Hclean) as Hg.
+  destruct (gen_trace_eshape _ _ Hg) as [Hesh Hneof].
   unfold hazard_free in Hhz. rewrite <- (tyb_wt g _ 0) in Hhz.
-  rewrite Htk in *. rewrite (wt_ttoks_eone g ps tg 0 Heone) in *. unfold wt_steps in *.
-  set (body0 := map (wt_step g) ps) in *. set (e := wt_eof g tg) in *.
+  rewrite Htk in *. rewrite (wt_ttoks_gen g ps tg 0 Hesh) in *.
+  set (body0 := flat_map (wt_step_l g) ps) in *. set (e := wt_eof g tg) in *.
   assert (Hnoeof : forallb (fun t => negb (is (ty t) TokenEOF)) body0 = true).
-  { subst body0. clear -Hneof. induction Hneof as [|p r Hne _ IH]; [reflexivity|]. cbn [map forallb]. rewrite IH, andb_true_r.
-    unfold wt_step, is. cbn [ty]. apply negb_true_iff. apply Z.eqb_neq. exact Hne. }
+  { subst body0. clear -Hneof Hesh. induction ps as [|p r IH]; [reflexivity|].
+    inversion Hneof as [|? ? Hp Hn']; subst. inversion Hesh as [|? ? Hs Hs']; subst.
+    cbn [flat_map]. rewrite forallb_app, (IH Hs' Hn'), andb_true_r. unfold wt_step_l.
+    destruct Hs as [[Ee _]|(k & Ee)]; rewrite Ee in *; cbn [forallb ty]; unfold is.
+    - destruct (Hp _ (or_introl eq_refl)) as [_ H]. apply Z.eqb_neq in H. rewrite H. reflexivity.
+    - reflexivity. }
   pose proof (split_lines_eof_last body0 [] e Hnoeof eq_refl) as Hse.
   rewrite format_unfold. destruct (split_lines (body0 ++ [e]) []) as [raws o] eqn:Esl.
   cbn [snd] in Hse. subst o. cbn [opt_list].
@@ -3593,22 +4824,30 @@ Proof.
   assert (Hsk : map skel (flatten (pipeline raws)) = map skel body0).
   { unfold pipeline. rewrite msk_format_cells, msk_map_format_spaces, msk_format_indent, flatten_mk_line, Hcat.
     reflexivity. }
-  pose proof (skel_tys g ps _ Hsk) as Htys.
+  assert (Htys : map ty (flatten (pipeline raws)) = flat_map stys ps).
+  { rewrite (tys_of_skel _ _ Hsk). subst body0. apply flat_tys. }
   apply (layout_flat e eq_refl eq_refl (zlen_nonneg tg) _ nil_tok Hfine).
   - eapply Forall_gshape_sk; [exact Hsk|]. subst body0. eapply shapes_trace; eassumption.
   - left. reflexivity.
   - rewrite (tyb_of_skel _ _ Hsk). rewrite map_app in Hhz. eapply hz_init. exact Hhz.
   - destruct (flatten (pipeline raws)) as [|x f] eqn:Ef; [exact I|].
-    split; [exact Hfirst|]. destruct ps as [|p r]; [discriminate Htys|].
-    cbn [map] in Htys. injection Htys as Hx Hf.
-    split.
-    + (* the scanner starts in main mode: the first token is not a string-scanner token *)
-      intro Et. exfalso. cbn [gen_trace] in Hg. destruct Hg as (_ & _ & _ & _ & _ & Hm & _).
-      rewrite <- Hx, Et in Hm. cbn in Hm. discriminate Hm.
-    + unfold tlchain. rewrite Hx, Hf. eapply tlchain_trace. exact Hg.
+    split; [exact Hfirst|].
+    assert (Hnil : TokenNil <> TokenCHeredoc) by discriminate.
+    destruct (chains_flat ps _ TokenNil Hg ltac:(intro Hx; exfalso; apply Hx; reflexivity) Hnil) as [H1 H2].
+    rewrite <- Htys in H1, H2. cbn [map tlchainT chainNT] in H1, H2.
+    destruct H1 as [H1a H1b]. destruct H2 as [_ H2b].
+    split; [|split; assumption].
+    intro Et. exfalso. specialize (H1a Et). unfold tl_before in H1a. cbn [In] in H1a.
+    destruct H1a as [H|[H|[H|[H|[H|[]]]]]]; discriminate H.
 Qed.
 
 (* ==== 7. the theorems; refutations ============================================= *)
+
+Lemma noheredoc_clean ks : noheredoc ks = true -> lexes_clean ks = true.
+Proof.
+  unfold noheredoc, lexes_clean. rewrite !forallb_forall. intros H k Hk. specialize (H k Hk).
+  apply nohd_ty_inv in H. tauto.
+Qed.
 
 Lemma simple_noheredoc ks : simple ks = true -> noheredoc ks = true.
 Proof.
@@ -3617,15 +4856,14 @@ Proof.
   apply Z.eqb_neq in H2. rewrite H2. reflexivity.
 Qed.
 
-(* ---- sources without heredocs (quoted templates with ${..} / %{..} included) ----------------- *)
+(* ---- every source that lexes cleanly (templates and heredocs included) ----------------------- *)
 
-(* (A+) the formatter's output lexes back to exactly the formatted writer tokens *)
-Theorem relex_exact_quoted g data ks :
-  lex_main data = Some ks -> noheredoc ks = true -> hazard_free ks = true ->
-  exists ks', relex (format (writer_tokens g 0 ks)) = Some ks' /\
-              writer_tokens g 0 ks' = format (writer_tokens g 0 ks).
+(* (A+) the statement FormatBytes.relex_exact_hazard_free_stmt: the formatter's output lexes
+   back to exactly the formatted writer tokens *)
+Theorem relex_exact_hazard_free : relex_exact_hazard_free_stmt.
 Proof.
-  intros H1 H2 H3. apply (relex_exact_nohd g data ks H1 H2). apply (layout_of_format_nohd g data ks H1 H2 H3).
+  intros g data ks H1 H2 H3. apply (relex_exact_clean g data ks H1 H2).
+  apply (layout_of_format_clean g data ks H1 H2 H3).
 Qed.
 
 Lemma stable_of_exact g ks ks' :
@@ -3636,11 +4874,11 @@ Proof.
 Qed.
 
 (* (A) ... hence to the same token types and bytes as the source *)
-Theorem relex_stable_quoted g data ks :
-  lex_main data = Some ks -> noheredoc ks = true -> hazard_free ks = true ->
+Theorem relex_stable_hazard_free g data ks :
+  lex_main data = Some ks -> lexes_clean ks = true -> hazard_free ks = true ->
   exists ks', relex (format (writer_tokens g 0 ks)) = Some ks' /\ map rtyb ks' = map rtyb ks.
 Proof.
-  intros H1 H2 H3. destruct (relex_exact_quoted g data ks H1 H2 H3) as (ks' & Hr & Hw).
+  intros H1 H2 H3. destruct (relex_exact_hazard_free g data ks H1 H2 H3) as (ks' & Hr & Hw).
   exists ks'. split; [exact Hr|]. eapply stable_of_exact; exact Hw.
 Qed.
 
@@ -3655,14 +4893,38 @@ Proof.
 Qed.
 
 (* (B) ... and formatting the formatted bytes again returns them unchanged *)
+Theorem bytes_idempotent_hazard_free g data ks out :
+  lex_main data = Some ks -> lexes_clean ks = true -> hazard_free ks = true ->
+  format_bytes g data = Some out -> format_bytes g out = Some out.
+Proof.
+  intros H1 H2 H3. apply (idempotent_of_exact g data ks out H1). apply (relex_exact_hazard_free g data ks H1 H2 H3).
+Qed.
+
+(* ---- corollaries: sources without heredocs, sources of main-scanner tokens --------------------- *)
+
+Theorem relex_exact_nohd g data ks :
+  lex_main data = Some ks -> noheredoc ks = true ->
+  layout_okb (format (writer_tokens g 0 ks)) = true ->
+  exists ks', relex (format (writer_tokens g 0 ks)) = Some ks' /\
+              writer_tokens g 0 ks' = format (writer_tokens g 0 ks).
+Proof. intros H1 H2 H3. apply (relex_exact_clean g data ks H1 (noheredoc_clean ks H2) H3). Qed.
+
+Theorem relex_exact_quoted g data ks :
+  lex_main data = Some ks -> noheredoc ks = true -> hazard_free ks = true ->
+  exists ks', relex (format (writer_tokens g 0 ks)) = Some ks' /\
+              writer_tokens g 0 ks' = format (writer_tokens g 0 ks).
+Proof. intros H1 H2 H3. apply (relex_exact_hazard_free g data ks H1 (noheredoc_clean ks H2) H3). Qed.
+
+Theorem relex_stable_quoted g data ks :
+  lex_main data = Some ks -> noheredoc ks = true -> hazard_free ks = true ->
+  exists ks', relex (format (writer_tokens g 0 ks)) = Some ks' /\ map rtyb ks' = map rtyb ks.
+Proof. intros H1 H2 H3. apply (relex_stable_hazard_free g data ks H1 (noheredoc_clean ks H2) H3). Qed.
+
 Theorem bytes_idempotent_quoted g data ks out :
   lex_main data = Some ks -> noheredoc ks = true -> hazard_free ks = true ->
   format_bytes g data = Some out -> format_bytes g out = Some out.
-Proof.
-  intros H1 H2 H3. apply (idempotent_of_exact g data ks out H1). apply (relex_exact_quoted g data ks H1 H2 H3).
-Qed.
+Proof. intros H1 H2 H3. apply (bytes_idempotent_hazard_free g data ks out H1 (noheredoc_clean ks H2) H3). Qed.
 
-(* the same from the decidable layout condition alone (hazard patterns allowed) *)
 Theorem relex_exact_main g data ks :
   lex_main data = Some ks -> simple ks = true ->
   layout_okb (format (writer_tokens g 0 ks)) = true ->
@@ -3670,12 +4932,10 @@ Theorem relex_exact_main g data ks :
               writer_tokens g 0 ks' = format (writer_tokens g 0 ks).
 Proof. intros H1 H2 H3. apply (relex_exact_nohd g data ks H1 (simple_noheredoc ks H2) H3). Qed.
 
-(* ---- the fragment of main-scanner tokens (corollaries) ------------------------------------------ *)
-
 Theorem layout_of_format g data ks :
   lex_main data = Some ks -> simple ks = true -> hazard_free ks = true ->
   layout_okb (format (writer_tokens g 0 ks)) = true.
-Proof. intros H1 H2 H3. apply (layout_of_format_nohd g data ks H1 (simple_noheredoc ks H2) H3). Qed.
+Proof. intros H1 H2 H3. apply (layout_of_format_clean g data ks H1 (noheredoc_clean ks (simple_noheredoc ks H2)) H3). Qed.
 
 Theorem relex_exact_simple g data ks :
   lex_main data = Some ks -> simple ks = true -> hazard_free ks = true ->
